@@ -1,51 +1,114 @@
 """C03 — what is stored in a trajectory store is what is read back.
 
-R1  species-axis agreement (T-AGREE): the iterable whose position supplies the
+Shared machinery: `Flow` - what an expression at a statement denotes, every
+local replaced by the definition(s) that reach the use (straight-line kill,
+if/else merge, branches that leave, loop back edges), the value variable of
+`for k, v in M.items()` by `M[k]`, tuple unpacking by component, loop keys
+written `name@line`; resolved helper calls and property reads are expanded
+on demand.  `iteration_paths` - every way through one pass of a loop body
+(constant flags tracked) with the conditions taken, ending in abort / next /
+leave.  `Dispatch` - case analysis by partial evaluation (R3).
+
+R1  species-axis agreement (T-AGREE): the sequence whose position supplies the
     index on the species axis is the same *source* at dimension creation, in
     the writer and in the reader (the file's own species list, or the enum
-    everywhere).  R1b the same for the thrust-mode axis.  R1c the index
-    variables are used in the subscript in dimension order (species before
-    thrust mode).  R1d the species list handed to the writer / reader is the
-    `.species` of the very file object that owns the variable.
-R2  absent <-> skipped agreement: where the writer can leave a cell unwritten
-    (skip under `if sp in val`, early return for None) the reader's arm for
-    that case tells "never written" from a value (fill value / emptiness).
+    everywhere).  Dimension creation is read from every `createDimension`
+    with a size in `_create_dimensions` or a nested helper (instantiated at
+    each call site; inlined helper = direct form): the size and the sequence
+    whose members label the coordinate variable (through the handle returned
+    by createVariable or `.variables[name]`, by enumerate loop or one slice
+    assignment) must be the same sequence, count-wise, after resolving locals
+    (`members = values if values is not None else list(enum_type)`).
+    Positions in writer / reader: `enumerate(S)`, `range(len(S))`, `zip(range,
+    S)`, `S.index(x)`, in the function itself, its closures and the methods
+    its dispatch table hands over to; a parameter is traced through callers
+    (also `table[key](…)` calls) and properties; an untraceable source is
+    undecided, never a violation.  R1b the same for the thrust-mode axis.
+    R1c the index variables are used in the subscript in dimension order.
+    R1d (value flow) the species list handed to the writer / reader is the
+    `.species` of the very file object that owns the variable: both
+    arguments are resolved with Flow (hoisted, items()-iterated, passed
+    through a property such as `species_list` or a store-wide `species`
+    property) and their owners compared.
+R2  absent <-> skipped agreement.  Writer: walked with the value None and
+    `field.required` fixed (tests decided by these facts followed, others
+    explored both ways): required -> every way raises; optional -> every way
+    returns before anything is written into the variable - a way that rebinds
+    the value (to a default, an empty array) and writes is the mistake
+    "unset stored as <that>".  A test of the value that is not understood is
+    undecided; callers that only pass set values discharge the obligation.
+    Reader: for the arms where the writer can leave a cell unwritten, the
+    conditions that decide what is handed back are collected (guards of
+    `return None` incl. guard clauses spelled the other way round and
+    conditional expressions; the `if` of the comprehension, or the guards of
+    the element stores of the loop, that builds the outermost mapping
+    returned) and resolved with Flow: one of them must test a never-written
+    marker (fill value / emptiness / mask) at the level of the species
+    entries.  R2b the marker must not be met by a storable value.
 R3  case-table exhaustiveness: the legal dimension combinations are derived
     from Dimensions.__init__.  Each of the four dispatching functions (empty,
     convert_in, writer, reader) is partially evaluated for every truth
     assignment of its `Dimension.X in ….dimensions` tests, whatever the idiom
     (`match` on a tuple or a flag, if/elif/else, nested ifs, guard clauses
     with early return, flags in locals, `and`/`or`/`not`/`==`, dict keyed by
-    the flag tuple); the *arm* of an assignment is what runs for it and not
-    for all.  Every legal combination has an arm that does something (not
-    nothing, not an unconditional raise); no other combination passes
-    silently.  Positive control: five embedded spellings.
+    the flag tuple - when the dict holds nested functions, lambdas or methods
+    of the class, the arm is the body of the one selected); the *arm* of an
+    assignment is what runs for it and not for all.  Every legal combination
+    has an arm that does something (not nothing, not an unconditional raise);
+    no other combination passes silently.  Positive control: five embedded
+    spellings.
 R4  digest completeness: every FieldMetadata field enters digest_info;
     FieldSet.digest covers the name and all fields in sorted order; the
     variable attributes written at creation are the ones read back by
     from_netcdf_group.
 R5  hash gate: a NcFiles value is only returned on paths that passed the
-    digest comparison (or the explicit force_fieldset_matches escape).
-R6  the writer writes, and the reader reads, at the record index it is given,
-    and every field of every field set is visited (no filter on the loops).
+    digest comparison; the raise is guarded by the mismatch and, at most, by
+    `not force_fieldset_matches` (conjuncts and flag locals resolved); the
+    check loop runs over every (name, hash) pair of the file.
+R6  the writer writes, and the reader reads, at the record index it is given.
+    By value flow, for the call of the writer in `_write_data` and of the
+    reader in `_load_trajectory`: variable, field definition, name argument
+    and (writer) `getattr(source, name)` go by one key, group and definitions
+    by one field set; the key is the key of an iteration over the group's
+    variables or the field set's fields, the field-set name of an iteration
+    over the store's field sets (for statement or comprehension, `for k in
+    M` / `.items()` / `.values()` + `.name`); every non-aborting way through
+    one pass of either loop reaches the call (iteration_paths) - a way that
+    passes a field over under a condition on its definition (dimension,
+    metadata) is a violation, under "value is unset" allowed for the writer,
+    under another condition on the item undecided; leaving the loop (`break`,
+    `return` in the writer) under an item-dependent condition is a violation;
+    sliced / filtered sources are violations.  Reader: the value read is kept
+    under its field's name (element store or dict comprehension handed to the
+    container) and assigned to the trajectory attribute of that name by a
+    loop over that container in which the assignment is unconditional.
 R7  lost accumulation: a container initialised empty before a loop and used
     after it is not rebound inside the loop (positive control).
-R8  every value accepted into a field is cast to the field's own data type
-    and copied (FieldMetadata._cast / convert_in).
+R8  every value accepted into a field is the container's own copy in the
+    field's data type: each return of `_cast` (alternatives by Flow) is
+    `….astype(self.field_type)` / `np.array(…, dtype=self.field_type)` /
+    `.item()` of such, never copy=False; every return of convert_in is None
+    or *built from* `self._cast(…)` - followed through locals, containers
+    filled in loops, comprehensions, constructors, conditional expressions
+    and resolved helper methods.  The incoming object (or a view / shallow
+    copy of it) reaching a return is the violation; anything else that cannot
+    be followed is undecided.
 R9  writer domain within dimension domain: the species list that sizes and
-    labels the species axis of a new file is traced back from
-    `_create_dimensions` through parameters, callers, properties and helpers
-    to the places where species enter it (`acc.update/add/|=` under loops,
-    comprehensions).  The conditions on the *field* under which a field
-    contributes (enclosing ifs, earlier `continue` guards, comprehension
-    ifs; by category: has-species-dimension, value-is-set, a metadata
-    attribute such as `required`, the field's name, another dimension) must
-    be among the conditions under which the writer writes a field, read from
-    `_write_data`'s field loops and the early returns of `_write_to_nc_var`
-    (today: value is set).  Anything narrower leaves a written species
-    without a slot.  Sliced / filtered loop sources and early exits are
-    undecided.  Floor: 2 collections (new store, associated file); positive
-    control.
+    labels the species axis of a new file (as found by R1's dimension
+    analysis) is traced back through parameters, callers, properties and
+    helpers to the places where species enter it (`acc.update/add/|=` under
+    loops, comprehensions, also over a filtered comprehension held in a
+    local).  The conditions on the *field* under which a field contributes
+    (enclosing ifs, earlier `continue` guards, comprehension ifs; by
+    category: has-species-dimension, value-is-set, a metadata attribute such
+    as `required`, the field's name, another dimension) must be among the
+    conditions under which the writer writes a field, read from
+    `_write_data`'s field loops and the unset-value protocol of
+    `_write_to_nc_var` (R2's evaluation; today: value is set).  Anything
+    narrower - including leaving the loop right after the first contribution
+    - leaves a written species without a slot.  Sliced / filtered loop sources
+    and other early exits are undecided.  Floor: 2 collections (new store,
+    associated file); positive control.
 """
 
 from __future__ import annotations
@@ -54,8 +117,9 @@ import ast
 import itertools
 
 from ..astutil import first_stmt, last_stmt  # noqa: F401
-from ..astutil import (ancestors, call_name, calls_in, conjuncts, guards_of, is_within, kwarg, local_defs, norm,
-                       single_def_value, stmt_of, stores_to, tuple_def_component, walk_no_nested)
+from ..astutil import (ancestors, call_name, calls_in, conjuncts, enclosing_iterations, guards_of, is_within,
+                       iterated_mapping, kwarg, local_defs, map_iteration, norm, single_def_value, stmt_of, stores_to,
+                       tuple_def_component, walk_no_nested)
 from ..cfg import CFG
 from ..loader import ClassInfo, dotted_name, parent
 from ..resolve import callers_of, expr_class, resolve_call, resolve_class_call
@@ -63,6 +127,390 @@ from ..resolve import callers_of, expr_class, resolve_call, resolve_class_call
 STORE = 'trajectories/store.py'
 FS = 'storage/field_sets.py'
 DIMS = 'storage/dimensions.py'
+
+
+# ------------------------------------------------------------ value flow --
+def _block_of(par, child):
+    for f in ('body', 'orelse', 'finalbody'):
+        blk = getattr(par, f, None)
+        if isinstance(blk, list) and any(x is child for x in blk):
+            return blk
+    for h in getattr(par, 'handlers', []) or []:
+        if any(x is child for x in h.body):
+            return h.body
+    return None
+
+
+def _ends(body) -> bool:
+    """every path through the block leaves it by return/raise/continue/break (syntactic, conservative)"""
+    l = last_stmt(body)
+    if isinstance(l, (ast.Return, ast.Raise, ast.Continue, ast.Break)):
+        return True
+    if isinstance(l, ast.If):
+        return bool(l.orelse) and _ends(l.body) and _ends(l.orelse)
+    if isinstance(l, (ast.With, ast.AsyncWith)):
+        return _ends(l.body)
+    return False
+
+
+def _rebuild(n, mapping):
+    """copy of expression n in which the nodes listed in mapping (by id) are replaced; positions are kept"""
+    if id(n) in mapping:
+        return mapping[id(n)]
+    if isinstance(n, list):
+        return [_rebuild(x, mapping) for x in n]
+    if not isinstance(n, ast.AST):
+        return n
+    new = type(n)()
+    for f in n._fields:
+        if hasattr(n, f):
+            setattr(new, f, _rebuild(getattr(n, f), mapping))
+    for a in ('lineno', 'col_offset', 'end_lineno', 'end_col_offset'):
+        if hasattr(n, a):
+            setattr(new, a, getattr(n, a))
+    return new
+
+
+def untag(s: str) -> str:
+    import re
+    return re.sub(r'@\d+(\.\d+)?', '', s)
+
+
+def same_site(a: ast.AST, b: ast.AST) -> bool:
+    """a (possibly a rebuilt copy) is the source construct b"""
+    return type(a) is type(b) and getattr(a, 'lineno', -1) == getattr(b, 'lineno', -2) and \
+        getattr(a, 'col_offset', -1) == getattr(b, 'col_offset', -2) and \
+        getattr(a, 'end_col_offset', -1) == getattr(b, 'end_col_offset', -2)
+
+
+class Flow:
+    """What an expression at a statement of one function denotes, written over the function's parameters, `self`,
+    free names and loop keys: every local is replaced by the definition(s) that reach the use (structural reaching
+    definitions: straight-line kill, if/else merge, branches that leave, loop back edges), the value variable of a
+    mapping iteration `for k, v in M.items()` by `M[k]`, tuple unpacking by its component.  Loop variables are
+    written `name@line` so that two loops over the same spelling stay apart.  Several reaching definitions give
+    several alternatives (`alts`); more than `CAP` sets `overflow`."""
+    CAP = 24
+
+    def __init__(self, prog, fi):
+        self.prog, self.fi, self.fn = prog, fi, fi.node
+        self.overflow = False
+
+    # -- definitions made by one statement -------------------------------
+    def _target_def(self, t, value, st, name):
+        if isinstance(t, ast.Name):
+            return ('val', st, value) if t.id == name else None
+        if isinstance(t, (ast.Tuple, ast.List)):
+            for i, e in enumerate(t.elts):
+                if isinstance(e, ast.Name) and e.id == name:
+                    if any(isinstance(x, ast.Starred) for x in t.elts):
+                        return ('opaque', st)
+                    return ('comp', st, value, i)
+                if isinstance(e, (ast.Tuple, ast.List, ast.Starred)) and name in names_of_target(e):
+                    return ('opaque', st)
+        return None
+
+    def _iter_def(self, owner, target, it, name):
+        if name in names_of_target(target):
+            return ('iter', owner, target, it, name)
+        return None
+
+    def _simple_defs(self, s, name):
+        """definitions of name made by the statement's own head (not by nested blocks)"""
+        out = []
+        if isinstance(s, (ast.FunctionDef, ast.AsyncFunctionDef, ast.ClassDef)):
+            return [('opaque', s)] if s.name == name else []
+        if isinstance(s, ast.Assign):
+            for t in s.targets:
+                d = self._target_def(t, s.value, s, name)
+                if d:
+                    out.append(d)
+        elif isinstance(s, ast.AnnAssign):
+            if s.value is not None and isinstance(s.target, ast.Name) and s.target.id == name:
+                out.append(('val', s, s.value))
+        elif isinstance(s, ast.AugAssign):
+            if isinstance(s.target, ast.Name) and s.target.id == name:
+                out.append(('opaque', s))
+        elif isinstance(s, (ast.For, ast.AsyncFor)):
+            d = self._iter_def(s, s.target, s.iter, name)
+            if d:
+                out.append(d)
+        elif isinstance(s, (ast.With, ast.AsyncWith)):
+            for it in s.items:
+                if it.optional_vars is not None and name in names_of_target(it.optional_vars):
+                    out.append(('opaque', s))
+        elif isinstance(s, (ast.Import, ast.ImportFrom)):
+            if any((a.asname or a.name.split('.')[0]) == name for a in s.names):
+                out.append(('opaque', s))
+        heads = [s] if not isinstance(s, (ast.If, ast.For, ast.AsyncFor, ast.While, ast.With, ast.AsyncWith, ast.Try,
+                                          ast.Match, ast.FunctionDef, ast.AsyncFunctionDef, ast.ClassDef)) else \
+            [getattr(s, f) for f in ('test', 'iter', 'subject') if hasattr(s, f)]
+        for h in heads:
+            for x in walk_no_nested(h):
+                if isinstance(x, ast.NamedExpr) and x.target.id == name:
+                    out.append(('val', s, x.value))
+        return out
+
+    def _all_defs(self, stmts, name):
+        out = []
+        for s in stmts:
+            for x in walk_no_nested(s):
+                if isinstance(x, ast.stmt):
+                    out += self._simple_defs(x, name)
+                elif isinstance(x, ast.match_case):
+                    if any(isinstance(p, (ast.MatchAs, ast.MatchStar)) and p.name == name for p in ast.walk(x.pattern)):
+                        out.append(('opaque', x.pattern))
+        return out
+
+    def _stmt_defs(self, s, name):
+        """(definitions of name that can be in force right after s, s always defines it)"""
+        if isinstance(s, ast.If):
+            b, bd, bt = self._block_defs(s.body, name)
+            o, od, ot = self._block_defs(s.orelse, name)
+            head = self._simple_defs(s, name)
+            return head + ([] if bt else b) + ([] if ot else o), (bd or bt) and (od or ot) and not (bt and ot)
+        if isinstance(s, (ast.With, ast.AsyncWith)):
+            head = self._simple_defs(s, name)
+            b, bd, bt = self._block_defs(s.body, name)
+            return b + head, bd or bool(head)
+        if isinstance(s, (ast.For, ast.AsyncFor, ast.While, ast.Try, ast.Match)):
+            return self._all_defs([s], name), False
+        d = self._simple_defs(s, name)
+        return d, bool(d)
+
+    def _block_defs(self, blk, name):
+        """(definitions in force at the end of the block, definitely defined, the block never falls through)"""
+        defs = []
+        for s in reversed(blk):
+            d, de = self._stmt_defs(s, name)
+            defs += d
+            if de:
+                return defs, True, _ends(blk)
+        return defs, False, _ends(blk)
+
+    def reaching(self, name, at):
+        """definitions of local `name` that can reach statement `at`"""
+        out, seen = [], set()
+
+        def add(ds):
+            for d in ds:
+                k = (d[0], id(d[1]), d[3] if d[0] == 'comp' else 0)
+                if k not in seen:
+                    seen.add(k)
+                    out.append(d)
+        child = at
+        for a in ancestors(at):
+            blk = _block_of(a, child)
+            if blk is None and isinstance(a, ast.match_case) and any(x is child for x in a.body):
+                blk = a.body
+            if blk is not None:
+                idx = next(i for i, x in enumerate(blk) if x is child)
+                for s in reversed(blk[:idx]):
+                    d, de = self._stmt_defs(s, name)
+                    add(d)
+                    if de:
+                        return out
+            if isinstance(a, (ast.For, ast.AsyncFor)) and blk is a.body:
+                d = self._iter_def(a, a.target, a.iter, name)
+                if d:
+                    add([d])
+                    return out
+                add(self._all_defs(a.body, name))
+            elif isinstance(a, ast.While) and blk is a.body:
+                add(self._all_defs(a.body, name))
+            elif isinstance(a, (ast.With, ast.AsyncWith)):
+                d = [x for x in self._simple_defs(a, name) if x[0] == 'opaque']
+                if d:
+                    add(d)
+                    return out
+            elif isinstance(a, ast.match_case):
+                if any(isinstance(p, (ast.MatchAs, ast.MatchStar)) and p.name == name for p in ast.walk(a.pattern)):
+                    add([('opaque', a.pattern)])
+                    return out
+            if isinstance(a, (ast.FunctionDef, ast.AsyncFunctionDef, ast.Lambda)):
+                args = a.args
+                ps = [x.arg for x in args.posonlyargs + args.args + args.kwonlyargs] + \
+                    [x.arg for x in (args.vararg, args.kwarg) if x is not None]
+                add([('param', a) if name in ps else ('free', a)])
+                return out
+            child = a
+        add([('free', None)])
+        return out
+
+    # -- expressions -------------------------------------------------------
+    @staticmethod
+    def _bound_inside(e):
+        """names bound by comprehensions / lambdas inside e"""
+        b = set()
+        for x in ast.walk(e):
+            if isinstance(x, ast.comprehension):
+                b |= names_of_target(x.target)
+            elif isinstance(x, ast.Lambda):
+                b |= {a.arg for a in x.args.args + x.args.kwonlyargs}
+        return b
+
+    def _def_alts(self, d, name, depth):
+        if d[0] == 'val':
+            if _is_fresh_container(d[2]):
+                # a container built here and filled later: the object, not its initial (empty) value
+                return [ast.Name(id=f'{name}@{d[1].lineno}', ctx=ast.Load())]
+            return self.alts(d[2], d[1], depth + 1)
+        if d[0] == 'comp':
+            out = []
+            for v in self.alts(d[2], d[1], depth + 1):
+                if isinstance(v, ast.Constant):
+                    continue        # unpacking a constant raises: no value flows from there
+                if isinstance(v, (ast.Tuple, ast.List)) and len(v.elts) > d[3] \
+                        and not any(isinstance(x, ast.Starred) for x in v.elts):
+                    out.append(v.elts[d[3]])
+                else:
+                    out.append(ast.Subscript(value=v, slice=ast.Constant(value=d[3]), ctx=ast.Load()))
+            return out
+        if d[0] == 'iter':
+            _, owner, target, it, nm = d
+            line = getattr(owner, 'lineno', 0)
+            mi = map_iteration(target, it)
+            if mi is not None and mi[2] == nm:
+                key = ast.Name(id=f'{mi[1] or "?"}@{line}', ctx=ast.Load())
+                at = owner if isinstance(owner, ast.stmt) else stmt_of(owner)
+                return [ast.Subscript(value=mx, slice=key, ctx=ast.Load())
+                        for mx in self.alts(iterated_mapping(it)[0], at, depth + 1)]
+            return [ast.Name(id=f'{nm}@{line}', ctx=ast.Load())]
+        if d[0] in ('param', 'free'):
+            return [ast.Name(id=name, ctx=ast.Load())]
+        return [ast.Name(id=f'{name}@{getattr(d[1], "lineno", 0)}', ctx=ast.Load())]
+
+    def alts(self, e, at, depth=0):
+        """alternatives of expression e evaluated at statement `at` (for the iterable of a loop: the loop statement,
+        whose own targets are not in force there)"""
+        if e is None:
+            return []
+        if depth > 7:
+            return [e]
+        bound = self._bound_inside(e)
+        slots = []
+        for x in ast.walk(e):
+            if isinstance(x, ast.Name) and isinstance(x.ctx, ast.Load) and x.id not in bound and '@' not in x.id:
+                cb = self._comp_binding(x)
+                ds = [cb] if cb is not None else self.reaching(x.id, at)
+                if len(ds) == 1 and ds[0][0] in ('param', 'free'):
+                    continue
+                ch, seen = [], set()
+                for d in ds:
+                    for v in self._def_alts(d, x.id, depth):
+                        k = ast.dump(v)
+                        if k not in seen:
+                            seen.add(k)
+                            ch.append(v)
+                slots.append((x, ch))
+        if not slots:
+            return [e]
+        n = 1
+        for _, ch in slots:
+            n *= max(1, len(ch))
+        if n > self.CAP:
+            self.overflow = True
+            slots = [(x, ch[:1]) for x, ch in slots]
+        out = []
+        for combo in itertools.product(*[ch for _, ch in slots]):
+            out.append(_rebuild(e, {id(x): v for (x, _), v in zip(slots, combo)}))
+        return out
+
+    @staticmethod
+    def _comp_binding(x):
+        """the clause of an enclosing comprehension that binds name node x (None: not bound by one)"""
+        child = x
+        p = getattr(x, '_parent', None)
+        while p is not None and not isinstance(p, ast.stmt):
+            if isinstance(p, (ast.ListComp, ast.SetComp, ast.DictComp, ast.GeneratorExp)):
+                gens = p.generators
+                # x inside the iterable of clause i sees the targets of clauses < i only
+                upto = len(gens)
+                for i, g in enumerate(gens):
+                    if child is g and any(y is x for y in ast.walk(g.iter)):
+                        upto = i
+                for g in reversed(gens[:upto]):
+                    if x.id in names_of_target(g.target):
+                        return ('iter', p, g.target, g.iter, x.id)
+            child = p
+            p = getattr(p, '_parent', None)
+        return None
+
+    # -- calls of repository helpers and properties -------------------------
+    def expand(self, e, depth=0):
+        """alternatives of what a resolved helper call / property read returns, in the caller's terms; None if e is
+        not such a construct"""
+        if depth > 3:
+            return None
+        callee, binds = None, {}
+        if isinstance(e, ast.Call):
+            callee = resolve_call(self.prog, self.fi, e)
+            if callee is None or callee.node is self.fn:
+                return None
+            ps = callee.params
+            off = 0
+            if ps[:1] in (['self'], ['cls']) and isinstance(e.func, ast.Attribute) and \
+                    not any('staticmethod' in d for d in callee.decorators()):
+                binds[ps[0]] = e.func.value
+                off = 1
+            if any(isinstance(a, ast.Starred) for a in e.args) or any(k.arg is None for k in e.keywords):
+                return None
+            for p, a in zip(ps[off:], e.args):
+                binds[p] = a
+            for k in e.keywords:
+                binds[k.arg] = k.value
+            for p in ps:
+                if p not in binds:
+                    dflt = _default_of(callee, p)
+                    if dflt is not None:
+                        binds[p] = dflt
+        elif isinstance(e, ast.Attribute):
+            callee = property_of(self.prog, self.fi, e)
+            if callee is None:
+                return None
+            binds[callee.params[0]] = e.value
+        else:
+            return None
+        f2 = Flow(self.prog, callee)
+        out = []
+        for r in walk_no_nested(callee.node):
+            if isinstance(r, ast.Return):
+                if r.value is None:
+                    out.append(ast.Constant(value=None))
+                    continue
+                for v in f2.alts(r.value, r):
+                    m = {id(x): binds[x.id] for x in ast.walk(v)
+                         if isinstance(x, ast.Name) and x.id in binds and x.id not in Flow._bound_inside(v)}
+                    out.append(_rebuild(v, m))
+        self.overflow = self.overflow or f2.overflow
+        return out or None
+
+
+def property_of(prog, fi, e):
+    """the property method read by attribute expression e: through the class of the receiver when that resolves,
+    else the only property of that name in the program"""
+    if not isinstance(e, ast.Attribute):
+        return None
+    owner = expr_class(prog, fi, e.value)
+    if owner is not None:
+        meth = owner.find_method(e.attr)
+        return meth if meth is not None and any('property' in d for d in meth.decorators()) else None
+    cands = [f for f in prog.all_functions() if f.name == e.attr and '.' in f.qualname
+             and '<locals>' not in f.qualname and any('property' in d for d in f.decorators())]
+    if len(cands) == 1 and not any(e.attr in c.all_fields() for c in prog.all_classes()):
+        return cands[0]
+    return None
+
+
+def names_of_target(t) -> set:
+    return {x.id for x in ast.walk(t) if isinstance(x, ast.Name)}
+
+
+def _is_fresh_container(v) -> bool:
+    if isinstance(v, (ast.List, ast.Set, ast.Dict)):
+        return True
+    return isinstance(v, ast.Call) and call_name(v) in ('set', 'list', 'dict', 'defaultdict', 'collections.defaultdict',
+                                                        'OrderedDict', 'collections.OrderedDict') and not v.args
 
 
 # ---------------------------------------------------------------- R1 -----
@@ -85,6 +533,13 @@ def classify_axis_source(prog, fi, e: ast.expr, depth=0) -> str:
         return f'other:{norm(e)}'
     if isinstance(e, ast.Attribute) and e.attr == 'species':
         return 'file'
+    if isinstance(e, ast.Attribute):
+        pm = property_of(prog, fi, e)
+        if pm is not None:
+            cls_ = {classify_axis_source(prog, pm, r.value, depth + 1) for r in walk_no_nested(pm.node)
+                    if isinstance(r, ast.Return) and r.value is not None}
+            if len(cls_) == 1:
+                return cls_.pop()
     if isinstance(e, ast.Name):
         r = prog.resolve_name(fi.module, e.id)
         if isinstance(r, ClassInfo) and any('Enum' in b for c in r.mro() for b in c.base_exprs):
@@ -97,7 +552,9 @@ def classify_axis_source(prog, fi, e: ast.expr, depth=0) -> str:
                     v = kwarg(c, 'species')
                     if v is not None and norm(v) == e.id:
                         return 'file'
-            cs = callers_of(prog, fi)
+            cs = callers_of(prog, fi) + _table_callers(prog, fi)
+            if not cs:
+                return f'unknown:{e.id} (no call of {fi.name} found)'
             idx = fi.params.index(e.id)
             off = 1 if fi.params[:1] in (['self'], ['cls']) else 0
             classes = set()
@@ -124,6 +581,28 @@ def classify_axis_source(prog, fi, e: ast.expr, depth=0) -> str:
     return 'other:' + norm(e)
 
 
+def _table_callers(prog, fi):
+    """calls `table[key](…)` where `table` is a dict display (held in a single-definition local) one of whose
+    values names method fi: [(calling function, call)]"""
+    out = []
+    if fi.cls is None:
+        return out
+    for f in fi.module.functions.values():
+        if f.cls is not fi.cls:
+            continue
+        for c in calls_in(f.node):
+            if not isinstance(c.func, ast.Subscript):
+                continue
+            tbl = c.func.value
+            if isinstance(tbl, ast.Name):
+                tbl = single_def_value(f.node, tbl.id)
+            if isinstance(tbl, ast.Dict) and any(
+                    isinstance(v, ast.Attribute) and v.attr == fi.name and norm(v.value) in ('self', 'cls')
+                    for v in tbl.values):
+                out.append((f, c))
+    return out
+
+
 def _default_of(fi, name):
     a = fi.node.args
     pos = a.posonlyargs + a.args
@@ -137,7 +616,9 @@ def _default_of(fi, name):
 
 
 def _enumerates(fn_node):
-    """(index var, elem var, source expr, node) for `for i, x in enumerate(S)` in loops and comprehensions."""
+    """(index variable / expression text, element variable, source expr, node) for every place where a position along a
+    sequence S is paired with its member: `for i, x in enumerate(S)`, `for i in range(len(S))` (member `S[i]`),
+    `for i, x in zip(range(len(S)), S)`, `S.index(x)` - in loops and comprehensions."""
     out = []
     for n in ast.walk(fn_node):
         tgt = it = None
@@ -149,38 +630,199 @@ def _enumerates(fn_node):
                 and isinstance(tgt, ast.Tuple) and len(tgt.elts) == 2 \
                 and all(isinstance(x, ast.Name) for x in tgt.elts):
             out.append((tgt.elts[0].id, tgt.elts[1].id, it.args[0], it))
+        elif it is not None and isinstance(it, ast.Call) and call_name(it) == 'range' and len(it.args) == 1 \
+                and isinstance(it.args[0], ast.Call) and call_name(it.args[0]) == 'len' and it.args[0].args \
+                and isinstance(tgt, ast.Name):
+            fake = ast.copy_location(ast.Call(func=ast.Name(id='enumerate', ctx=ast.Load()),
+                                              args=[it.args[0].args[0]], keywords=[]), it)
+            out.append((tgt.id, '', it.args[0].args[0], fake))
+        elif it is not None and isinstance(it, ast.Call) and call_name(it) == 'zip' and len(it.args) == 2 \
+                and isinstance(it.args[0], ast.Call) and call_name(it.args[0]) in ('range', 'itertools.count', 'count') \
+                and isinstance(tgt, ast.Tuple) and len(tgt.elts) == 2 and all(isinstance(x, ast.Name) for x in tgt.elts):
+            fake = ast.copy_location(ast.Call(func=ast.Name(id='enumerate', ctx=ast.Load()), args=[it.args[1]], keywords=[]), it)
+            out.append((tgt.elts[0].id, tgt.elts[1].id, it.args[1], fake))
+        if isinstance(n, ast.Call) and isinstance(n.func, ast.Attribute) and n.func.attr == 'index' and len(n.args) == 1 \
+                and isinstance(n.args[0], ast.Name):
+            fake = ast.copy_location(ast.Call(func=ast.Name(id='enumerate', ctx=ast.Load()), args=[n.func.value], keywords=[]), n)
+            par = getattr(n, '_parent', None)
+            ivar = norm(n)
+            if isinstance(par, (ast.Assign, ast.AnnAssign)) and isinstance(getattr(par, 'targets', [getattr(par, 'target', None)])[0], ast.Name):
+                ivar = getattr(par, 'targets', [getattr(par, 'target', None)])[0].id
+            out.append((ivar, n.args[0].id, n.func.value, fake))
     return out
 
 
-def rule_axis(ctx, m):
+def _canon_test(t):
+    pol = True
+    while isinstance(t, ast.UnaryOp) and isinstance(t.op, ast.Not):
+        t, pol = t.operand, not pol
+    if isinstance(t, ast.Compare) and len(t.ops) == 1 and isinstance(t.comparators[0], ast.Constant) \
+            and t.comparators[0].value is None and isinstance(t.ops[0], (ast.Is, ast.IsNot, ast.Eq, ast.NotEq)):
+        return ('set', norm(t.left)), pol == isinstance(t.ops[0], (ast.IsNot, ast.NotEq))
+    return ('set', norm(t)), pol
+
+
+def canon_seq(e, leaves, count_only=False):
+    """canonical form of a sequence-valued expression: list()/tuple() peeled (and, when only the number of members
+    matters, sorted()/reversed()); `a if c else b`, `a or b` as ('if', test, a, b) with the test in positive form"""
+    while isinstance(e, ast.Call) and len(e.args) >= 1 and \
+            call_name(e) in (('list', 'tuple', 'sorted', 'reversed') if count_only else ('list', 'tuple')) \
+            and (count_only or not e.keywords):
+        e = e.args[0]
+    if isinstance(e, ast.IfExp):
+        k, pol = _canon_test(e.test)
+        x, y = canon_seq(e.body, leaves, count_only), canon_seq(e.orelse, leaves, count_only)
+        return ('if', k, x, y) if pol else ('if', k, y, x)
+    if isinstance(e, ast.BoolOp) and isinstance(e.op, ast.Or) and len(e.values) == 2:
+        return ('if', ('set', norm(e.values[0])), canon_seq(e.values[0], leaves, count_only),
+                canon_seq(e.values[1], leaves, count_only))
+    leaves[norm(e)] = e
+    return ('seq', norm(e))
+
+
+def canon_len(e, leaves):
+    if isinstance(e, ast.Call) and call_name(e) == 'len' and len(e.args) == 1:
+        return canon_seq(e.args[0], leaves, count_only=True)
+    if isinstance(e, ast.IfExp):
+        k, pol = _canon_test(e.test)
+        x, y = canon_len(e.body, leaves), canon_len(e.orelse, leaves)
+        return ('if', k, x, y) if pol else ('if', k, y, x)
+    return ('num', norm(e))
+
+
+def dimension_layouts(ctx, prog, m, cd):
+    """{axis name: (class of the sequence that lays the axis out, node)} for every fixed-size dimension created by
+    `_create_dimensions` - directly or through a nested helper that is instantiated at each of its call sites.
+    For each creating function: the size handed to createDimension and the sequence whose members label the
+    coordinate variable (written through the handle returned by createVariable or through `.variables[name]`) are
+    the same sequence (count-wise: list()/sorted() do not change a count)."""
+    out = {}
+    fns = [cd] + [f for q, f in m.functions.items() if q.startswith(cd.qualname + '.<locals>.')]
+    for f in fns:
+        fl = Flow(prog, f)
+        for c in calls_in(f.node):
+            if not (isinstance(c.func, ast.Attribute) and c.func.attr == 'createDimension' and len(c.args) >= 1):
+                continue
+            size = c.args[1] if len(c.args) > 1 else kwarg(c, 'size')
+            if size is None or (isinstance(size, ast.Constant) and size.value is None):
+                continue        # unlimited (record) dimension: no labels
+            nm = c.args[0]
+            st = stmt_of(c)
+            handles = set()
+            for t, stx, how in stores_to(f.node):
+                if isinstance(t, ast.Name) and isinstance(getattr(stx, 'value', None), ast.Call) and \
+                        isinstance(stx.value.func, ast.Attribute) and stx.value.func.attr == 'createVariable' \
+                        and stx.value.args and norm(stx.value.args[0]) == norm(nm):
+                    handles.add(t.id)
+                v_ = getattr(stx, 'value', None)
+                if isinstance(t, ast.Name) and isinstance(v_, ast.Subscript) and isinstance(v_.value, ast.Attribute) \
+                        and v_.value.attr == 'variables' and norm(v_.slice) == norm(nm):
+                    handles.add(t.id)
+            labels = []
+            for t, stx, how in stores_to(f.node):
+                if not (isinstance(t, ast.Subscript) and how == 'assign'):
+                    continue
+                base = t.value
+                own = (isinstance(base, ast.Name) and base.id in handles) or (
+                    isinstance(base, ast.Subscript) and isinstance(base.value, ast.Attribute) and
+                    base.value.attr == 'variables' and norm(base.slice) == norm(nm))
+                if not own:
+                    continue
+                src = None
+                if isinstance(t.slice, ast.Name):
+                    for owner, tgt, it in enclosing_iterations(stx):
+                        if isinstance(it, ast.Call) and call_name(it) == 'enumerate' and it.args and \
+                                isinstance(tgt, ast.Tuple) and len(tgt.elts) == 2 and \
+                                isinstance(tgt.elts[0], ast.Name) and tgt.elts[0].id == t.slice.id:
+                            src = (it.args[0], owner if isinstance(owner, ast.stmt) else stmt_of(owner))
+                            break
+                        if isinstance(it, ast.Call) and call_name(it) == 'zip' and len(it.args) == 2 and \
+                                isinstance(it.args[0], ast.Call) and call_name(it.args[0]) in ('range', 'count', 'itertools.count') \
+                                and isinstance(tgt, ast.Tuple) and len(tgt.elts) == 2 and \
+                                isinstance(tgt.elts[0], ast.Name) and tgt.elts[0].id == t.slice.id:
+                            src = (it.args[1], owner if isinstance(owner, ast.stmt) else stmt_of(owner))
+                            break
+                elif isinstance(t.slice, (ast.Slice, ast.Constant)) and (isinstance(t.slice, ast.Slice) or t.slice.value is Ellipsis):
+                    v = stx.value
+                    for _ in range(3):
+                        while isinstance(v, ast.Call) and v.args and call_name(v) in ('np.array', 'np.asarray', 'numpy.array', 'list'):
+                            v = v.args[0]
+                        if isinstance(v, ast.Name) and single_def_value(f.node, v.id) is not None:
+                            v = single_def_value(f.node, v.id)
+                    if isinstance(v, (ast.ListComp, ast.GeneratorExp)) and len(v.generators) == 1 and not v.generators[0].ifs:
+                        src = (v.generators[0].iter, stx)
+                if src is None:
+                    ctx.undecided('C03-R1', f, norm(stx)[:60], 'cannot tell from which sequence the coordinate labels are taken')
+                labels.append(src)
+            if not labels:
+                ctx.undecided('C03-R1', f, norm(c)[:60], 'no coordinate labels are written for this dimension')
+            leaves = {}
+            sz = fl.alts(size, st)
+            lb = [x for e_, at in labels for x in fl.alts(e_, at)]
+            if len(sz) != 1 or len(lb) != 1 or fl.overflow:
+                ctx.undecided('C03-R1', f, norm(c)[:60], 'size or labels of the dimension have several possible sources')
+            c_size = canon_len(sz[0], leaves)
+            c_count = canon_seq(lb[0], leaves, count_only=True)
+            c_order = canon_seq(lb[0], leaves)
+            ok = c_size == c_count
+            ctx.ob('C03-R1', f, 'dimension length and coordinate labels come from one iterable', ok,
+                   f'size and labels from {untag(norm(lb[0]))[:70]}' if ok else
+                   f'dimension size and coordinate labels are taken from different iterables: size {untag(norm(sz[0]))[:60]}, '
+                   f'labels {untag(norm(lb[0]))[:60]}', line=c.lineno, nontrivial=False)
+            # instantiate: directly (constant name) or per call site of the nested helper
+            sites = []
+            if f is cd:
+                sites.append(({}, c))
+            else:
+                for cc in calls_in(cd.node):
+                    if resolve_call(prog, cd, cc) == f:
+                        b = {p_: _arg_for_param(f, cc, p_) for p_ in f.params}
+                        sites.append(({k: (v if v is not None else _default_of(f, k)) for k, v in b.items()}, cc))
+
+            def inst(t, binds):
+                if t[0] == 'if':
+                    kind, ptxt = t[1]
+                    if ptxt in binds:
+                        a_ = binds[ptxt]
+                        given = a_ is not None and not (isinstance(a_, ast.Constant) and a_.value is None)
+                        return inst(t[2] if given else t[3], binds)
+                    return None
+                return t
+
+            for binds, cc in sites:
+                n_ = binds.get(nm.id) if isinstance(nm, ast.Name) and nm.id in binds else nm
+                if not (isinstance(n_, ast.Constant) and isinstance(n_.value, str)):
+                    ctx.undecided('C03-R1', cd, norm(cc)[:60], 'name of the dimension created is not a constant')
+                leaf = inst(c_order, binds)
+                if leaf is None:
+                    ctx.undecided('C03-R1', cd, norm(cc)[:60], 'cannot tell which sequence lays out the dimension at this call')
+                e_ = leaves[leaf[1]]
+                if isinstance(e_, ast.Name) and e_.id in binds and binds[e_.id] is not None:
+                    out[n_.value] = (classify_axis_source(prog, cd, binds[e_.id]), cc, binds[e_.id], cd)
+                else:
+                    out[n_.value] = (classify_axis_source(prog, f, e_), cc, e_, f)
+    return out
+
+
+def scopes_of(fi, arms):
+    """the function itself and the methods its dispatch table hands over to (bodies that are not inside fi)"""
+    out = [fi]
+    if arms and fi.qualname in arms:
+        for a in arms[fi.qualname][2].values():
+            for h in a.hosts.values():
+                if h is not None and not any(h == o for o in out) and not h.qualname.startswith(fi.qualname + '.<locals>.'):
+                    out.append(h)
+    return out
+
+
+def rule_axis(ctx, m, arms=None):
     prog = ctx.prog
     wr = m.func('TrajectoryStore._write_to_nc_var')
     rd = m.func('TrajectoryStore._read_from_nc_var')
     cd = m.func('_create_dimensions')
-    ced = m.functions.get('_create_dimensions.<locals>.create_enum_dimension')
-    if ced is None:
-        ctx.undecided('C03-R1', cd, 'create_enum_dimension', 'helper not found')
-
-    # dimension creation sites: calls create_enum_dimension(name, enum, values?)
-    dim_src = {}
-    for c in calls_in(cd.node):
-        if call_name(c) == 'create_enum_dimension' and c.args and isinstance(c.args[0], ast.Constant):
-            axis = c.args[0].value
-            vals = c.args[2] if len(c.args) > 2 else kwarg(c, 'values')
-            if vals is not None and not (isinstance(vals, ast.Constant) and vals.value is None):
-                dim_src[axis] = (classify_axis_source(prog, cd, vals), c)
-            else:
-                dim_src[axis] = (classify_axis_source(prog, cd, c.args[1]), c)
+    dim_src = dimension_layouts(ctx, prog, m, cd)
+    ctx._c03_layouts = dim_src
     ctx.floor('C03-R1', len(dim_src), 2, 'enum dimensions created')
-    # the helper must size and fill the dimension from the same iterable
-    en = _enumerates(ced.node)
-    sz = [c for c in calls_in(ced.node) if call_name(c).endswith('createDimension')]
-    ok = len(en) == 1 and len(sz) == 1 and norm(en[0][2]).replace(' ', '') == \
-        'valuesifvaluesisnotNoneelseenum_type'
-    ok = ok and 'len(values) if values is not None else len(enum_type)' in norm(sz[0])
-    ctx.ob('C03-R1', ced, 'dimension length and coordinate labels come from one iterable', ok,
-           'len(values or enum) and enumerate(values or enum)' if ok else
-           'dimension size and coordinate labels are taken from different iterables', nontrivial=False)
 
     def axis_of(src_class):
         if src_class == 'file' or src_class == 'enum:Species':
@@ -190,20 +832,30 @@ def rule_axis(ctx, m):
         return None
 
     sites = {'species': [], 'thrust_mode': []}
-    for role, fi in (('writer', wr), ('reader', rd)):
+    for role, fi in [(r_, f_) for r_, top in (('writer', wr), ('reader', rd)) for f_ in scopes_of(top, arms)]:
         for ivar, evar, src, node in _enumerates(fi.node):
             cl = classify_axis_source(prog, fi, src)
             ax = axis_of(cl)
             if ax is None:
-                # decide the axis from the element variable name as a fallback
-                ax = 'species' if evar.startswith('sp') else ('thrust_mode' if evar.startswith('t') else None)
-            if ax is None:
-                ctx.undecided('C03-R1', fi, norm(node), f'cannot tell which axis {norm(src)} enumerates')
+                # a source of another kind (sorted(...), a slice, ...): which axis it is about is read from what it
+                # mentions - the species list / Species enum or the ThrustMode enum - and only then from the
+                # spelling of the element variable
+                idents = {x.id for x in ast.walk(src) if isinstance(x, ast.Name)} | \
+                    {x.attr for x in ast.walk(src) if isinstance(x, ast.Attribute)}
+                if idents & {'species', 'Species'} and 'ThrustMode' not in idents:
+                    ax = 'species'
+                elif 'ThrustMode' in idents and not idents & {'species', 'Species'}:
+                    ax = 'thrust_mode'
+                else:
+                    ax = 'species' if evar.startswith('sp') else ('thrust_mode' if evar.startswith('t') else None)
+            if ax is None or cl.startswith('unknown:'):
+                ctx.undecided('C03-R1', fi, norm(node), f'cannot tell which axis {norm(src)} enumerates' if ax is None else
+                              f'cannot trace where {norm(src)} comes from: {cl[8:]}')
             sites[ax].append((role, fi, cl, node, ivar))
     ctx.floor('C03-R1/species', len(sites['species']), 4, 'species-axis enumerations in writer+reader')
     ctx.floor('C03-R1b/thrust', len(sites['thrust_mode']), 4, 'thrust-mode enumerations in writer+reader')
     for ax, rule in (('species', 'C03-R1'), ('thrust_mode', 'C03-R1b')):
-        ref, refcall = dim_src.get(ax, (None, None))
+        ref, refcall = dim_src.get(ax, (None, None))[:2]
         if ref is None:
             ctx.undecided(rule, cd, ax, 'dimension creation site not found')
         ctx.ob(rule, cd, f'{ax} axis created from [{ref}]', True, 'reference for writer and reader',
@@ -217,16 +869,17 @@ def rule_axis(ctx, m):
                    line=node.lineno)
 
     # R1c subscript order
-    for role, fi in (('writer', wr), ('reader', rd)):
+    for role, fi in [(r_, f_) for r_, top in (('writer', wr), ('reader', rd)) for f_ in scopes_of(top, arms)]:
         sp_vars = {iv for r, f, cl, n, iv in sites['species'] if f is fi}
         tm_vars = {iv for r, f, cl, n, iv in sites['thrust_mode'] if f is fi}
+        vnames, inames = variable_params(fi)
         for n in ast.walk(fi.node):
-            if isinstance(n, ast.Subscript) and isinstance(n.value, ast.Name) and n.value.id == 'var' \
+            if isinstance(n, ast.Subscript) and isinstance(n.value, ast.Name) and n.value.id in vnames \
                     and isinstance(n.slice, ast.Tuple):
                 idx = [norm(x) for x in n.slice.elts]
                 used_sp = [i for i, x in enumerate(idx) if x in sp_vars]
                 used_tm = [i for i, x in enumerate(idx) if x in tm_vars]
-                ok = idx[0] == 'index' and (not used_sp or used_sp == [1]) and \
+                ok = idx[0] in inames and (not used_sp or used_sp == [1]) and \
                     (not used_tm or used_tm == [len(idx) - 1]) and \
                     (not (used_sp and used_tm) or used_sp[0] < used_tm[0])
                 ctx.ob('C03-R1c', fi, f'{role} subscript var[{", ".join(idx)}]', ok,
@@ -284,10 +937,11 @@ class Arm:
     """The statements a dispatching function executes for one assignment of its dimension tests and for no
     other reason (what every assignment executes alike - preamble, common tail - is left out)."""
 
-    def __init__(self, body, lineno, indirect=False):
+    def __init__(self, body, lineno, indirect=False, hosts=None):
         self.body = body
         self.lineno = lineno
         self.indirect = indirect
+        self.hosts = hosts or {}        # id(statement) -> FunctionInfo of the callee the statement was taken from
 
     def walk(self):
         for s in self.body:
@@ -310,8 +964,10 @@ class Dispatch:
     them, comparison of a tuple of flags with a literal tuple, conditional expressions, a dict literal keyed by the
     flag tuple.  Conditions that do not depend on the tests alone stay in the arm as they are."""
 
-    def __init__(self, fi):
+    def __init__(self, fi, prog=None):
         self.fi = fi
+        self.prog = prog
+        self.hosts = {}
         tests = sorted((n for n in walk_no_nested(fi.node) if self.dim_of(n) is not None),
                        key=lambda n: (n.lineno, n.col_offset))
         self.dims = []
@@ -486,7 +1142,14 @@ class Dispatch:
                     x = ast.Raise(exc=ast.Name(id='KeyError', ctx=ast.Load()), cause=None)
                     out.append((ast.copy_location(x, s), s.lineno))
                     return out, True
-                if r == 'hit':
+                if isinstance(r, tuple):
+                    # the table holds callables whose bodies are at hand: the arm is the body of the one selected
+                    _, body, host = r
+                    for b_ in body:
+                        if host is not None:
+                            self.hosts[id(b_)] = host
+                        out.append((b_, s.lineno))
+                elif r == 'hit':
                     self.indirect.add(id(s))
                     out.append((s, s.lineno))
                 else:
@@ -507,7 +1170,31 @@ class Dispatch:
             keys = [self.ev(x, env) if x is not None else _OPQ for x in tbl.keys]
             if k is _OPQ or any(x is _OPQ for x in keys):
                 raise ValueError(f'dispatch table lookup not decided by the dimension tests: {norm(n)[:60]}')
-            return 'hit' if k in keys else 'missing'
+            if k not in keys:
+                return 'missing'
+            val = tbl.values[keys.index(k)]
+            par = getattr(n, '_parent', None)
+            called = isinstance(par, ast.Call) and par.func is n
+            body = self._callable_body(val) if called else None
+            return ('body',) + body if body is not None else 'hit'
+        return None
+
+    def _callable_body(self, v):
+        """(statements, FunctionInfo | None) of a nested function / lambda / method of the same class named by v"""
+        if isinstance(v, ast.Lambda):
+            return [ast.copy_location(ast.Return(value=v.body), v)], None
+        if isinstance(v, ast.Name):
+            for x in self.fi.node.body:
+                if isinstance(x, (ast.FunctionDef, ast.AsyncFunctionDef)) and x.name == v.id:
+                    host = None
+                    if self.prog is not None and hasattr(self.fi, 'module'):
+                        host = self.fi.module.functions.get(f'{self.fi.qualname}.<locals>.{v.id}')
+                    return list(x.body), host
+        if isinstance(v, ast.Attribute) and isinstance(v.value, ast.Name) and v.value.id in ('self', 'cls') \
+                and getattr(self.fi, 'cls', None) is not None:
+            meth = self.fi.cls.find_method(v.attr)
+            if meth is not None:
+                return list(meth.node.body), meth
         return None
 
     def table(self):
@@ -523,20 +1210,8 @@ class Dispatch:
         for row, r in runs.items():
             own = [(s, sel) for s, sel in r if id(s) not in common]
             line = next((sel or s.lineno for s, sel in own), self.fi.node.lineno)
-            out[row] = Arm([s for s, _ in own], line, any(id(s) in self.indirect for s, _ in own))
+            out[row] = Arm([s for s, _ in own], line, any(id(s) in self.indirect for s, _ in own), self.hosts)
         return out
-
-
-def _ends(body) -> bool:
-    """every path through the block leaves it by return/raise/continue/break (syntactic, conservative)"""
-    l = last_stmt(body)
-    if isinstance(l, (ast.Return, ast.Raise, ast.Continue, ast.Break)):
-        return True
-    if isinstance(l, ast.If):
-        return bool(l.orelse) and _ends(l.body) and _ends(l.orelse)
-    if isinstance(l, (ast.With, ast.AsyncWith)):
-        return _ends(l.body)
-    return False
 
 
 def rule_tables(ctx, m, legal):
@@ -552,7 +1227,7 @@ def rule_tables(ctx, m, legal):
     arms = {}
     for fi in tables:
         try:
-            dp = Dispatch(fi)
+            dp = Dispatch(fi, prog)
             if not dp.dims:
                 raise ValueError('no `Dimension.X in …` test decides what is done (dispatch idiom changed)')
             table = dp.table()
@@ -656,20 +1331,181 @@ def _dispatch_control() -> bool:
     return same and d_ok and e_gap and sig['a'][(True, True)][0] == 'refuse' and sig['a'][(True, False)][0] == 'arm'
 
 
+def none_outcomes(fn, vparam, fparam, varparam, required):
+    """Walk the body of the writer with the value parameter None and `<field>.required` == required; tests that
+    these two facts decide are followed, every other test is explored both ways.  -> [(kind, node, current value)]
+    with kind 'raise' | 'return' | 'store' (a statement that writes into the NetCDF variable is reached; current
+    value: what the value parameter was rebound to, None if it still is the None that came in) | 'unsure' (a test of
+    the value was not understood: the outcomes are an over-approximation)."""
+    out = []
+    unsure = []
+
+    def ev(e, cur):
+        if isinstance(e, ast.UnaryOp) and isinstance(e.op, ast.Not):
+            v = ev(e.operand, cur)
+            return None if v is None else not v
+        if isinstance(e, ast.BoolOp):
+            vs = [ev(v, cur) for v in e.values]
+            if isinstance(e.op, ast.And):
+                return False if any(v is False for v in vs) else (True if all(v is True for v in vs) else None)
+            return True if any(v is True for v in vs) else (False if all(v is False for v in vs) else None)
+        if isinstance(e, ast.Compare) and len(e.ops) == 1:
+            l, r = e.left, e.comparators[0]
+            for x, y in ((l, r), (r, l)):
+                if isinstance(x, ast.Name) and x.id == vparam and isinstance(y, ast.Constant) and y.value is None \
+                        and cur is None:
+                    if isinstance(e.ops[0], (ast.Is, ast.Eq)):
+                        return True
+                    if isinstance(e.ops[0], (ast.IsNot, ast.NotEq)):
+                        return False
+                if isinstance(x, ast.Attribute) and x.attr == 'required' and norm(x.value) == fparam and \
+                        isinstance(y, ast.Constant) and isinstance(y.value, bool):
+                    if isinstance(e.ops[0], (ast.Is, ast.Eq)):
+                        return required == y.value
+                    if isinstance(e.ops[0], (ast.IsNot, ast.NotEq)):
+                        return required != y.value
+            return None
+        if isinstance(e, ast.Attribute) and e.attr == 'required' and norm(e.value) == fparam:
+            return required
+        if isinstance(e, ast.Name):
+            if e.id == vparam and cur is None:
+                return False
+            v = single_def_value(fn, e.id)
+            if v is not None and e.id not in (vparam, fparam):
+                return ev(v, cur)
+        if isinstance(e, ast.Call) and call_name(e) == 'isinstance' and e.args and isinstance(e.args[0], ast.Name) \
+                and e.args[0].id == vparam and cur is None:
+            return False
+        return None
+
+    def writes(s):
+        for t, stx, how in stores_to(s):
+            b = t
+            while isinstance(b, ast.Subscript):
+                b = b.value
+            if isinstance(t, ast.Subscript) and isinstance(b, ast.Name) and b.id == varparam:
+                return stx
+        for c in calls_in(s):
+            if any(isinstance(a_, ast.Name) and a_.id == varparam for a_ in c.args) and \
+                    any(isinstance(a_, ast.Name) and a_.id == vparam for a_ in c.args):
+                return c        # handed on to a helper together with the value
+        return None
+
+    def run(stmts, cur, budget):
+        """-> list of (cur) states that fall through"""
+        states = [cur]
+        for s in stmts:
+            nxt = []
+            for cur_ in states:
+                if isinstance(s, ast.If):
+                    v = ev(s.test, cur_)
+                    if v is None and cur_ is None and any(isinstance(x, ast.Name) and x.id == vparam for x in ast.walk(s.test)):
+                        unsure.append(s.test)       # a test of the value that is not understood
+                    if v is not False:
+                        nxt += run(s.body, cur_, budget)
+                    if v is not True:
+                        nxt += run(s.orelse, cur_, budget)
+                    continue
+                if isinstance(s, ast.Return):
+                    out.append(('return', s, cur_))
+                    continue
+                if isinstance(s, ast.Raise):
+                    out.append(('raise', s, cur_))
+                    continue
+                w = writes(s)
+                if w is not None:
+                    out.append(('store', w, cur_))
+                    continue
+                for t, stx, how in stores_to(s):
+                    if isinstance(t, ast.Name) and t.id == vparam and stx is s and getattr(s, 'value', None) is not None:
+                        v_ = s.value
+                        cur_ = None if isinstance(v_, ast.Constant) and v_.value is None else v_
+                nxt.append(cur_)
+            # merge states by text to stay small
+            seen, states = set(), []
+            for c_ in nxt:
+                k = norm(c_) if c_ is not None else None
+                if k not in seen:
+                    seen.add(k)
+                    states.append(c_)
+            if not states:
+                return []
+        return states
+    for cur in run(fn.body, None, 0):
+        out.append(('return', fn, cur))
+    if unsure:
+        out.append(('unsure', unsure[0], None))
+    return out
+
+
+def _caller_passes_set_values(ctx, m, wr, vparam) -> bool:
+    """every call of the writer is made only for values that are set (the callers test the value themselves)"""
+    calls = [(f, c) for f, c in callers_of(ctx.prog, wr)]
+    if not calls:
+        return False
+    for f, c in calls:
+        varg = _arg_for_param(wr, c, vparam)
+        if varg is None:
+            return False
+        st = stmt_of(c)
+        loops = [a for a in ancestors(st) if isinstance(a, (ast.For, ast.While))]
+        top = loops[-1] if loops else f.node
+        keep, leave, cx = loop_conditions(st, top, (ast.Raise,))
+        items = {x.id for lp in loops if isinstance(lp, ast.For) for x in ast.walk(lp.target) if isinstance(x, ast.Name)}
+        cats = [cp for e, pol in keep for cp in categorise_fact(f.node, e, pol, items | {n_ for n_ in names_of_target(varg)}, varg)]
+        if ('value', True) not in cats:
+            return False
+    return True
+
+
 # ---------------------------------------------------------------- R2 -----
 def rule_absent(ctx, m, arms):
     wr = m.func('TrajectoryStore._write_to_nc_var')
     rd = m.func('TrajectoryStore._read_from_nc_var')
     wdims, wcov, _ = arms[wr.qualname]
     rdims, rcov, _ = arms[rd.qualname]
-    # writer: None handling
-    none_if = [n for n in wr.node.body if isinstance(n, ast.If) and norm(n.test) in ('val is None', 'None is val')]
-    okn = bool(none_if) and any(isinstance(s, ast.Return) for s in none_if[0].body) and \
-        any(isinstance(s, ast.If) and 'required' in norm(s.test) and isinstance(first_stmt(s.body), ast.Raise)
-            for s in none_if[0].body)
-    ctx.ob('C03-R2', wr, 'unset value: refused if required, else nothing written', okn,
-           '`if val is None: if field.required: raise; return`' if okn else
-           'the writer no longer separates unset required from unset optional values')
+    # writer: an unset value (None) - refused when the field is required, otherwise nothing at all is written, so that
+    # the cell keeps the fill value the reader recognises.  Decided by walking the writer with `val is None` and
+    # `field.required` fixed, whatever the spelling of the tests.
+    vparam = 'val' if 'val' in wr.params else None
+    fparam = 'field' if 'field' in wr.params else None
+    varparam = 'var' if 'var' in wr.params else (wr.params[1] if len(wr.params) > 1 else None)
+    if vparam is None or fparam is None:
+        ctx.undecided('C03-R2', wr, 'parameters', 'cannot tell which parameters carry the value and the field definition')
+    caller_guards = _caller_passes_set_values(ctx, m, wr, vparam)
+    bad_opt = bad_req = None
+    for required in (False, True):
+        outcomes = none_outcomes(wr.node, vparam, fparam, varparam, required)
+        uns = [o for o in outcomes if o[0] == 'unsure']
+        if uns and not caller_guards and any(o[0] == 'store' for o in outcomes):
+            ctx.undecided('C03-R2', wr, norm(uns[0][1])[:60], 'a test of the value in the writer is not understood: cannot '
+                          'tell whether an unset value reaches the write')
+        for kind, node, cur in [o for o in outcomes if o[0] != 'unsure']:
+            if required and kind != 'raise' and bad_req is None:
+                bad_req = (kind, node, cur)
+            if not required and kind != 'return' and bad_opt is None:
+                bad_opt = (kind, node, cur)
+    okn = (bad_opt is None and bad_req is None) or caller_guards
+    why = '`val is None`: required -> raise, optional -> return before any write'
+    if caller_guards:
+        why = 'the caller only passes values that are set'
+    elif bad_opt is not None:
+        kind, node, cur = bad_opt
+        if kind == 'raise':
+            why = 'an unset optional value is refused by the writer: a trajectory with an unset optional field cannot be stored'
+        elif cur is not None:
+            why = (f'an unset optional value is not left unwritten: it is replaced by `{norm(cur)[:40]}` and written (line '
+                   f'{node.lineno}), so the cell no longer holds the fill value and the field reads back as that value instead '
+                   'of unset (None)')
+        else:
+            why = (f'an unset optional value reaches the write at line {node.lineno}: the writer no longer returns before '
+                   'writing when the value is None')
+    elif bad_req is not None:
+        why = ('the writer no longer separates unset required from unset optional values: a required field that is None is '
+               + ('silently left unwritten' if bad_req[0] == 'return' else 'written'))
+    ctx.ob('C03-R2', wr, 'unset value: refused if required, else nothing written', okn, why,
+           line=(bad_opt or bad_req or (0, wr.node, 0))[1].lineno)
+    rfl = Flow(ctx.prog, rd)
     for row, case in sorted(rcov.items(), key=lambda kv: kv[0]):
         combo = dict(zip(rdims, row))
         wrow = tuple(combo[d] for d in wdims)
@@ -686,12 +1522,13 @@ def rule_absent(ctx, m, arms):
         # reader uses emptiness as its "never written" marker (`all(cell == fill)` is vacuously true for an empty cell,
         # `len(v) > 0` filters species).  That marker must not be met by a value that can legitimately be stored: it is,
         # whenever a trajectory may have zero points.
+        tests = _arm_tests(rfl, case)
         if combo.get('POINT') and not combo.get('THRUST_MODE'):
-            arm_txt = ' '.join(norm(s_) for s_ in case.body)
-            vacuous = [x for s_ in case.body for x in ast.walk(s_) if isinstance(x, ast.Call) and call_name(x) == 'all'
-                       and x.args and isinstance(x.args[0], ast.Compare)]
-            empt = [x for s_ in case.body for x in ast.walk(s_) if isinstance(x, ast.Compare) and norm(x).startswith('len(')
-                    and norm(x).endswith(('> 0', '!= 0', '>= 1'))]
+            vacuous = [x for s_ in case.body for x in ast.walk(s_) if isinstance(x, ast.Call) and x.args and (
+                call_name(x) in ('all', 'np.all', 'numpy.all') and isinstance(x.args[0], ast.Compare))] + \
+                [x for s_ in case.body for x in ast.walk(s_) if isinstance(x, ast.Call) and isinstance(x.func, ast.Attribute)
+                 and x.func.attr == 'all' and isinstance(x.func.value, ast.Compare)]
+            empt = [c_ for c_, at, kinds, lvl in tests if 'empty' in kinds and 'fill' not in kinds]
             uses_emptiness = bool(vacuous or empt)
             add = m.func('TrajectoryStore.add')
             zero_refused = any(isinstance(r, ast.Raise) and any(
@@ -705,41 +1542,131 @@ def rule_absent(ctx, m, arms):
                     'its arrays read back as unset (None)' + (' and its species are dropped' if combo['SPECIES'] else
                                                                '; for a required field _load_trajectory then fails with TypeError (len(None))')),
                    line=case.lineno)
-        # can the writer skip a cell in this arm?
+        # can the writer skip a cell in this arm?  (a membership test of the value decides whether a cell is written)
         w_skips = [n for n in wcase.walk() if isinstance(n, ast.If) and
-                   any(isinstance(o, ast.In) for c in ast.walk(n.test) if isinstance(c, ast.Compare) for o in c.ops)]
-        arm_src = ' '.join(norm(s) for s in case.body)
+                   any(isinstance(o, (ast.In, ast.NotIn)) for c in ast.walk(n.test) if isinstance(c, ast.Compare) for o in c.ops)]
         if combo['SPECIES']:
             if not w_skips:
                 ctx.ob('C03-R2', rd, f'reader arm {label}: writer writes every cell', True,
                        'no skip in the writer arm, nothing to filter', line=case.lineno, nontrivial=False)
                 continue
-            comps = [n for s in case.body for n in ast.walk(s)
-                     if isinstance(n, (ast.DictComp, ast.ListComp, ast.GeneratorExp)) and
-                     any(g.ifs for g in n.generators)]
-            filt = [norm(i) for n in comps for g in n.generators for i in g.ifs]
-            recognised = [f for f in filt if any(k in f for k in ('fill', 'len(', '.size', 'mask', 'isnan'))]
-            sp_filter = False
-            for n in comps:
-                if isinstance(n, ast.DictComp) and any(g.ifs for g in n.generators):
-                    # the outermost species mapping must be the filtered one
-                    par = getattr(n, '_parent', None)
-                    while par is not None and not isinstance(par, (ast.Call, ast.stmt)):
-                        par = getattr(par, '_parent', None)
-                    if isinstance(par, ast.Call) and 'SpeciesValues' in norm(par.func):
-                        sp_filter = True
-            ok = bool(recognised) and sp_filter
+            recognised = [untag(norm(c_)) for c_, at, kinds, lvl in tests if kinds and lvl == 'entry']
+            ok = bool(recognised)
             ctx.ob('C03-R2', rd, f'reader arm {label}: never-written species are dropped', ok,
                    f'species mapping filtered by {recognised}' if ok else
                    ('the writer skips species a value does not contain (`if sp in val`) but this reader arm '
                     'rebuilds every species of the file for every field: species are invented on read-back'),
                    line=case.lineno)
         elif not combo['THRUST_MODE']:
-            ok = 'get_fill_value' in arm_src and 'return None' in arm_src
+            none_rets = [(c_, kinds) for c_, at, kinds, lvl in tests if lvl == 'none' and kinds]
+            ok = bool(none_rets)
             ctx.ob('C03-R2', rd, f'reader arm {label}: unset value reads back as None', ok,
                    'fill value → None' if ok else
                    'an optional value that was never written does not read back as unset',
                    line=case.lineno)
+
+
+def _marker_kinds(fl, cond, at):
+    """which never-written marker a condition tests, after resolving its names: {'fill', 'empty', 'mask'}"""
+    kinds = set()
+    try:
+        texts = [norm(x) for x in fl.alts(cond, at)] if at is not None else [norm(cond)]
+    except Exception:
+        texts = [norm(cond)]
+    for t in texts:
+        if 'get_fill_value(' in t or '_FillValue' in t or 'default_fillvals' in t:
+            kinds.add('fill')
+        if 'len(' in t or '.size' in t or '.shape' in t:
+            kinds.add('empty')
+        if 'mask' in t or 'isnan' in t:
+            kinds.add('mask')
+    return kinds
+
+
+def _arm_tests(fl, arm):
+    """conditions in a reader arm that decide what is handed back: [(condition, statement, marker kinds, level)] with
+    level 'none' - guards a `return None` (or the None arm of a conditional expression returned); 'entry' - decides
+    whether an entry of the outermost mapping returned exists (the `if` of the comprehension that builds it, the
+    guards of the element stores / `continue` clauses of the loop that fills it); 'inner' - anything else."""
+    out = []
+    stmts = list(arm.body)
+    rets = [x for s_ in stmts for x in ast.walk(s_) if isinstance(x, ast.Return)]
+
+    def at_of(n):
+        try:
+            return stmt_of(n)
+        except AttributeError:
+            return None
+    entry_conds = []
+    for r in rets:
+        v = r.value
+        if v is None or (isinstance(v, ast.Constant) and v.value is None):
+            for t, pol, owner in guards_of(r) if hasattr(r, '_parent') else []:
+                out.append((t, at_of(t), _marker_kinds(fl, t, at_of(t)), 'none'))
+            # guard clauses spelled the other way round: `if cell != fill: return cell` ... `return None`
+            child = r
+            for a_ in (ancestors(r) if hasattr(r, '_parent') else []):
+                blk = _block_of(a_, child)
+                if blk is None and isinstance(a_, ast.match_case) and any(x is child for x in a_.body):
+                    blk = a_.body
+                if blk is not None:
+                    for p_ in blk[:next(i for i, x in enumerate(blk) if x is child)]:
+                        if isinstance(p_, ast.If) and (_ends(p_.body) or (p_.orelse and _ends(p_.orelse))):
+                            out.append((p_.test, p_, _marker_kinds(fl, p_.test, p_), 'none'))
+                if isinstance(a_, (ast.FunctionDef, ast.AsyncFunctionDef, ast.Match)):
+                    break
+                child = a_
+            continue
+        if isinstance(v, ast.IfExp) and any(isinstance(x, ast.Constant) and x.value is None for x in (v.body, v.orelse)):
+            out.append((v.test, at_of(r), _marker_kinds(fl, v.test, at_of(r)), 'none'))
+        # the mapping handed back: peel constructors
+        mexp = v
+        while isinstance(mexp, ast.Call) and len(mexp.args) == 1 and not mexp.keywords and not (
+                isinstance(mexp.func, ast.Attribute) and mexp.func.attr in ('items', 'values', 'keys')):
+            mexp = mexp.args[0]
+        cands = [mexp]
+        if isinstance(mexp, ast.Name) and hasattr(r, '_parent'):
+            cands = []
+            for d in fl.reaching(mexp.id, r):
+                if d[0] == 'val':
+                    x = d[2]
+                    while isinstance(x, ast.Call) and len(x.args) == 1 and not x.keywords:
+                        x = x.args[0]
+                    cands.append(x)
+                    if _is_fresh_container(d[2]):
+                        for t, stx, how in stores_to(fl.fn):
+                            if isinstance(t, ast.Subscript) and isinstance(t.value, ast.Name) and t.value.id == mexp.id \
+                                    and any(stx is y for s_ in stmts for y in ast.walk(s_)):
+                                loops = [a_ for a_ in ancestors(stx) if isinstance(a_, (ast.For, ast.While))
+                                         and any(a_ is y for s_ in stmts for y in ast.walk(s_))]
+                                if loops:
+                                    keep, leave, cx = loop_conditions(stx, loops[-1], (ast.Raise,))
+                                    inner_loops = loops[:-1]
+                                    for e_, pol in keep:
+                                        own = next((a_ for a_ in ancestors(e_) if isinstance(a_, ast.stmt)), None)
+                                        lvl = 'entry' if not any(own is not None and is_within(own, il) for il in inner_loops) else 'inner'
+                                        entry_conds.append((e_, at_of(e_), lvl))
+        for x in cands:
+            if isinstance(x, ast.DictComp):
+                for g in x.generators[:1]:
+                    for i in g.ifs:
+                        entry_conds.append((i, at_of(r), 'entry'))
+    seen = set()
+    for c_, at, lvl in entry_conds:
+        seen.add(id(c_))
+        out.append((c_, at, _marker_kinds(fl, c_, at), lvl))
+    for s_ in stmts:
+        for x in ast.walk(s_):
+            conds = []
+            if isinstance(x, ast.comprehension):
+                conds = x.ifs
+            elif isinstance(x, (ast.If, ast.IfExp)):
+                conds = [x.test]
+            for c_ in conds:
+                if id(c_) not in seen and not any(c_ is o[0] for o in out):
+                    out.append((c_, at_of(c_) if hasattr(c_, '_parent') else None,
+                                _marker_kinds(fl, c_, at_of(c_) if hasattr(c_, '_parent') else None), 'inner'))
+    return out
 
 
 # ---------------------------------------------------------------- R4 -----
@@ -762,27 +1689,95 @@ def rule_digest(ctx, m):
     ok = 'sorted(' in src and 'digest_info' in src and 'fieldset_name' in src
     ctx.ob('C03-R4', dg, 'digest covers name and every field in sorted order', ok,
            'name + sorted(field names) + digest_info' if ok else 'digest is order-dependent or incomplete')
-    # attribute round trip
+    # attribute round trip: what is attached to a variable at creation (attribute assignment, setncattr, setncatts,
+    # setattr on a handle returned by createVariable) is what from_netcdf_group asks for (getncattr / getattr)
     cn = m.func('TrajectoryStore._create_nc_file')
-    written = set()
+    handles = {t.id for t, st, how in stores_to(cn.node) if isinstance(t, ast.Name) and
+               isinstance(getattr(st, 'value', None), ast.Call) and isinstance(st.value.func, ast.Attribute)
+               and st.value.func.attr == 'createVariable'}
+    written = {}
     for t, st, how in stores_to(cn.node):
-        if isinstance(t, ast.Attribute) and norm(t.value) == 'v':
-            written.add(t.attr)
+        if isinstance(t, ast.Attribute) and isinstance(t.value, ast.Name) and t.value.id in handles and how == 'assign':
+            written[t.attr] = st.value
+    for c in calls_in(cn.node):
+        if isinstance(c.func, ast.Attribute) and isinstance(c.func.value, ast.Name) and c.func.value.id in handles:
+            if c.func.attr == 'setncattr' and len(c.args) == 2 and isinstance(c.args[0], ast.Constant):
+                written[c.args[0].value] = c.args[1]
+            elif c.func.attr == 'setncatts' and c.args and isinstance(c.args[0], ast.Dict):
+                for k_, v_ in zip(c.args[0].keys, c.args[0].values):
+                    if isinstance(k_, ast.Constant):
+                        written[k_.value] = v_
+        if call_name(c) == 'setattr' and len(c.args) == 3 and isinstance(c.args[0], ast.Name) and c.args[0].id in handles \
+                and isinstance(c.args[1], ast.Constant):
+            written[c.args[1].value] = c.args[2]
     fg = fs.func('FieldSet.from_netcdf_group')
-    read = set()
+    read = {}
     for c in calls_in(fg.node):
         if call_name(c).endswith('getncattr') and c.args and isinstance(c.args[0], ast.Constant):
-            read.add(c.args[0].value)
-    ok = written == read and written >= {'description', 'units', 'required'}
+            read[c.args[0].value] = c
+        elif call_name(c) == 'getattr' and len(c.args) >= 2 and isinstance(c.args[1], ast.Constant):
+            read[c.args[1].value] = c
+    if not written or not read:
+        ctx.undecided('C03-R4', cn if not written else fg, 'variable attributes', 'cannot tell which attributes are ' +
+                      ('attached to a variable at creation' if not written else 'read back by from_netcdf_group'))
+    ok = set(written) == set(read) and set(written) >= {'description', 'units', 'required'}
     ctx.ob('C03-R4', fg, f'variable attributes written {sorted(written)} = read {sorted(read)}', ok,
            'creation and reconstruction agree' if ok else
            'attributes written at creation and read by from_netcdf_group differ')
-    req_w = [st for t, st, how in stores_to(cn.node) if isinstance(t, ast.Attribute) and t.attr == 'required']
-    req_r = [k for c in calls_in(fg.node) for k in [kwarg(c, 'required')] if k is not None]
-    ok = bool(req_w) and bool(req_r) and "'true' if" in norm(req_w[0].value) and "== 'true'" in norm(req_r[0])
-    ctx.ob('C03-R4', fg, 'required flag encoding round-trips', ok,
-           "'true'/'false' written, == 'true' read" if ok else 'required flag encoded and decoded differently',
-           nontrivial=False)
+    # the required flag is written as text: decoding what is written for True / False gives True / False back
+    rt = None
+    if 'required' in written and 'required' in read:
+        rk = [k for c in calls_in(fg.node) for k in [kwarg(c, 'required')] if k is not None]
+        rexp = rk[0] if rk else None
+        if rexp is None:
+            par = getattr(read['required'], '_parent', None)
+            while par is not None and not isinstance(par, (ast.stmt, ast.keyword)):
+                rexp, par = par, getattr(par, '_parent', None)
+        try:
+            rt = all(_tiny_eval(rexp, lambda n_: (True, _tiny_eval(written['required'],
+                                                                     lambda q: (True, b_) if (isinstance(q, ast.Attribute) and q.attr == 'required') else (False, None)))
+                                if n_ is read['required'] else (False, None)) is b_ for b_ in (True, False))
+        except ValueError as e_:
+            ctx.undecided('C03-R4', fg, 'required flag', f'encoding of the required flag not evaluated: {e_}')
+    ctx.ob('C03-R4', fg, 'required flag encoding round-trips', bool(rt),
+           'decode(encode(True)) is True, decode(encode(False)) is False' if rt else
+           'required flag encoded and decoded differently', nontrivial=False)
+
+
+def _tiny_eval(e, subst):
+    """evaluate a side-effect-free expression of constants, comparisons, conditional expressions, str()/bool()/int(),
+    .lower()/.upper()/.strip(), dict/tuple displays and subscripts; subst(node) -> (handled, value)"""
+    h, v = subst(e)
+    if h:
+        return v
+    if isinstance(e, ast.Constant):
+        return e.value
+    if isinstance(e, ast.IfExp):
+        return _tiny_eval(e.body if _tiny_eval(e.test, subst) else e.orelse, subst)
+    if isinstance(e, ast.UnaryOp) and isinstance(e.op, ast.Not):
+        return not _tiny_eval(e.operand, subst)
+    if isinstance(e, ast.BoolOp):
+        vs = [_tiny_eval(x, subst) for x in e.values]
+        return all(vs) if isinstance(e.op, ast.And) else any(vs)
+    if isinstance(e, (ast.Tuple, ast.List, ast.Set)):
+        return tuple(_tiny_eval(x, subst) for x in e.elts)
+    if isinstance(e, ast.Dict) and all(k is not None for k in e.keys):
+        return {_tiny_eval(k, subst): _tiny_eval(v_, subst) for k, v_ in zip(e.keys, e.values)}
+    if isinstance(e, ast.Subscript):
+        return _tiny_eval(e.value, subst)[_tiny_eval(e.slice, subst)]
+    if isinstance(e, ast.Compare) and len(e.ops) == 1:
+        a_, b_ = _tiny_eval(e.left, subst), _tiny_eval(e.comparators[0], subst)
+        op = e.ops[0]
+        table = {ast.Eq: lambda: a_ == b_, ast.NotEq: lambda: a_ != b_, ast.In: lambda: a_ in b_, ast.NotIn: lambda: a_ not in b_,
+                 ast.Is: lambda: a_ is b_, ast.IsNot: lambda: a_ is not b_}
+        if type(op) in table:
+            return table[type(op)]()
+    if isinstance(e, ast.Call) and not e.keywords:
+        if isinstance(e.func, ast.Name) and e.func.id in ('str', 'bool', 'int') and len(e.args) == 1:
+            return {'str': str, 'bool': bool, 'int': int}[e.func.id](_tiny_eval(e.args[0], subst))
+        if isinstance(e.func, ast.Attribute) and e.func.attr in ('lower', 'upper', 'strip') and not e.args:
+            return getattr(_tiny_eval(e.func.value, subst), e.func.attr)()
+    raise ValueError(norm(e)[:50])
 
 
 # ---------------------------------------------------------------- R5 -----
@@ -796,13 +1791,20 @@ def rule_hash_gate(ctx, m):
             if n.kind == 'stmt' and isinstance(n.stmt, ast.Raise):
                 gs = guards_of(n.stmt)
                 txt = [(norm(t), pol) for t, pol, _ in gs]
-                def is_gate(t):
-                    return any(isinstance(x, ast.Compare) and isinstance(x.ops[0], ast.NotEq) and
-                               any(isinstance(y, ast.Attribute) and y.attr == 'digest'
-                                   for y in [x.left] + x.comparators) for x in ast.walk(t))
-                if any(is_gate(t) and pol for t, pol, _ in gs):
-                    extra = [norm(t) for t, pol, _ in gs if not is_gate(t)]
-                    okx = all(t == 'not self.force_fieldset_matches' for t in extra)
+                def is_gate(t, pol):
+                    """a digest mismatch: `a.digest != b` held true, or `a.digest == b` held false"""
+                    return isinstance(t, ast.Compare) and len(t.ops) == 1 and \
+                        isinstance(t.ops[0], ast.NotEq if pol else ast.Eq) and \
+                        any(isinstance(y, ast.Attribute) and y.attr == 'digest' for x in [t.left] + t.comparators
+                            for y in ast.walk(x))
+                facts = [(f_, p_) for t, pol, _ in gs for f_, p_ in conjuncts(t, pol)]
+                for _ in range(3):      # flags held in single-definition locals
+                    facts = [y for f_, p_ in facts for y in (
+                        conjuncts(single_def_value(fi.node, f_.id), p_)
+                        if isinstance(f_, ast.Name) and single_def_value(fi.node, f_.id) is not None else [(f_, p_)])]
+                if any(is_gate(f_, p_) for f_, p_ in facts):
+                    extra = [(norm(f_), p_) for f_, p_ in facts if not is_gate(f_, p_)]
+                    okx = all(t == 'self.force_fieldset_matches' and p_ is False for t, p_ in extra)
                     loops = [a for a in ancestors(n.stmt) if isinstance(a, ast.For)]
                     gate = (n, okx, loops)
         if gate is None:
@@ -818,116 +1820,654 @@ def rule_hash_gate(ctx, m):
                'the check loop dominates the return; only force_fieldset_matches bypasses it' if ok else
                'a path returns the file description without passing the digest comparison', line=n.line)
         lp = loops[0] if loops else None
-        ok = lp is not None and 'zip(fieldset_names, fieldset_hashes)' in norm(lp.iter)
+        its = [norm(x) for x in Flow(ctx.prog, fi).alts(lp.iter, lp)] if lp is not None else []
+        ok = lp is not None and _plain_iter(lp.iter) and bool(its) and \
+            all('fieldset_names' in t and 'fieldset_hashes' in t for t in its)
         ctx.ob('C03-R5', fi, 'every stored field-set hash is compared', ok,
                norm(lp.iter) if ok else 'the gate does not visit every (name, hash) pair of the file',
                line=(lp.lineno if lp else fi.node.lineno), nontrivial=False)
 
 
 # ---------------------------------------------------------------- R6 -----
-def rule_index_use(ctx, m):
+def variable_params(fi):
+    """(names of the parameters that are the NetCDF variable, names that are the record index) of a writer / reader
+    function or of a method its dispatch hands over to"""
+    a = fi.node.args
+    vn, inn = set(), set()
+    for x in a.posonlyargs + a.args + a.kwonlyargs:
+        ann = norm(x.annotation) if x.annotation is not None else ''
+        if x.arg == 'var' or 'Variable' in ann:
+            vn.add(x.arg)
+        if x.arg == 'index' or (x.arg.endswith('index') and ann in ('int', '')):
+            inn.add(x.arg)
+    if fi.qualname.count('.<locals>.'):
+        # a closure of the writer / reader sees its variable and index
+        vn.add('var')
+        inn.add('index')
+    return vn, inn
+
+
+def rule_index_use(ctx, m, arms=None):
     wr = m.func('TrajectoryStore._write_to_nc_var')
     rd = m.func('TrajectoryStore._read_from_nc_var')
-    for role, fi in (('writer', wr), ('reader', rd)):
+    for role, top in (('writer', wr), ('reader', rd)):
         bad = []
         n_sub = 0
-        for n in ast.walk(fi.node):
-            if isinstance(n, ast.Subscript) and isinstance(n.value, ast.Name) and n.value.id == 'var':
-                n_sub += 1
-                first = n.slice.elts[0] if isinstance(n.slice, ast.Tuple) else n.slice
-                if norm(first) != 'index':
-                    bad.append(n)
+        fi = top
+        for sc in scopes_of(top, arms):
+            vnames, inames = variable_params(sc)
+            for n in ast.walk(sc.node):
+                if isinstance(n, ast.Subscript) and isinstance(n.value, ast.Name) and n.value.id in vnames:
+                    n_sub += 1
+                    first = n.slice.elts[0] if isinstance(n.slice, ast.Tuple) else n.slice
+                    if norm(first) not in inames:
+                        bad.append(n)
         ctx.floor(f'C03-R6/{role}', n_sub, 4, f'{role} variable subscripts')
         ctx.ob('C03-R6', fi, f'{role}: {n_sub} variable accesses all at [index, …]', not bad,
                'record index used as given' if not bad else
                f'{role} accesses record {norm(bad[0])} instead of the record index it was given',
                line=(bad[0].lineno if bad else fi.node.lineno))
-    wd = m.func('TrajectoryStore._write_data')
-    lt = m.func('TrajectoryStore._load_trajectory')
-    for fi, what in ((wd, 'for name in group.variables'), (lt, 'for name, field in fs.items()')):
-        loops = [n for n in walk_no_nested(fi.node) if isinstance(n, ast.For) and
-                 f'for {norm(n.target).strip("()")} in {norm(n.iter)}' == what]
-        ok = bool(loops) and not any(isinstance(s, ast.Continue) for lp in loops for s in ast.walk(lp))
-        ctx.ob('C03-R6', fi, f'`{what}` visits every field', ok,
-               'no filter / continue in the field loop' if ok else 'some fields are skipped by the field loop',
-               line=(loops[0].lineno if loops else fi.node.lineno), nontrivial=False)
-    # value written is the attribute of the same name
-    vals = [st for t, st, how in stores_to(wd.node) if isinstance(t, ast.Name) and t.id == 'val'
-            and isinstance(st.value, ast.Call)]
-    ok = bool(vals) and all(call_name(s.value) == 'getattr' and norm(s.value.args[1]) == 'name' for s in vals)
-    ctx.ob('C03-R6', wd, 'value written for a variable is the attribute of the same name', ok,
-           'getattr(traj|data, name)' if ok else 'the value written does not come from the field of the same name')
-    sets = [c for c in calls_in(lt.node) if call_name(c) == 'setattr']
-    ok = bool(sets) and norm(sets[0].args[1]) == 'k' and norm(sets[0].args[2]) == 'v'
-    st_data = [st for t, st, how in stores_to(lt.node) if isinstance(t, ast.Subscript) and norm(t.value) == 'data']
-    ok = ok and bool(st_data) and norm(st_data[0].targets[0].slice) == 'name' and norm(st_data[0].value) == 'val'
-    ctx.ob('C03-R6', lt, 'value read for a variable is assigned to the field of the same name', ok,
-           'data[name] = val; setattr(traj, k, v)' if ok else 'read values are assigned under a different name')
-    # ... for every field read, whatever its value (None is a value: an unset optional field)
-    for c in sets:
-        lp = next((a for a in ancestors(c) if isinstance(a, (ast.For, ast.While))), None)
-        inner = [t for t, pol, o in guards_of(stmt_of(c)) if lp is not None and any(a is lp for a in ancestors(o))]
-        esc = [x for x in (ast.walk(lp) if lp is not None else []) if isinstance(x, (ast.Continue, ast.Break))]
-        ok = lp is not None and not inner and not esc
-        ctx.ob('C03-R6', lt, f'{norm(c)} runs for every value read', ok,
-               'unconditional in the loop over the values read' if ok else
-               (f'the assignment is skipped for some values ({norm(inner[0]) if inner else "continue/break in the loop"}): the '
-                'freshly constructed trajectory keeps the field\'s declared default there, so an optional field that was '
-                'stored unset (None) reads back as its default instead of None'), line=c.lineno)
+
+# ------------------------------------------------------- R6 / R1d flow ----
+_SEQ = ('list', 'tuple', 'sorted', 'iter', 'reversed')
 
 
-# ---------------------------------------------------------------- R1d ----
-def _base_name(e):
-    """X for `X.species`, `X.species or []`, `X.groups[..][..]`, ..."""
-    if isinstance(e, ast.BoolOp):
-        e = e.values[0]
-    while isinstance(e, (ast.Subscript, ast.Attribute)):
-        if isinstance(e, ast.Attribute) and isinstance(e.value, ast.Name):
-            return e.value.id, e.attr
-        e = e.value
-    return None, None
+def _strip_seq(e):
+    """X for `X or []`, `list(X)`, `X if X is not None else []`, `X if X else ()`"""
+    while True:
+        if isinstance(e, ast.BoolOp) and isinstance(e.op, ast.Or) and all(_is_empty_container(v) or (
+                isinstance(v, ast.Tuple) and not v.elts) for v in e.values[1:]):
+            e = e.values[0]
+        elif isinstance(e, ast.Call) and call_name(e) in ('list', 'tuple') and len(e.args) == 1 and not e.keywords:
+            e = e.args[0]
+        elif isinstance(e, ast.IfExp) and (_is_empty_container(e.orelse) or
+                                           (isinstance(e.orelse, ast.Tuple) and not e.orelse.elts)) \
+                and any(norm(x) == norm(e.body) for x in ast.walk(e.test)):
+            e = e.body
+        else:
+            return e
 
 
-def rule_same_file(ctx, m):
-    """the species list handed to the writer / reader belongs to the very file
-    object whose variable is written / read"""
-    for caller_q, callee, sp_pos in (('TrajectoryStore._write_data', '_write_to_nc_var', 5),
-                                     ('TrajectoryStore._load_trajectory', '_read_from_nc_var', 4)):
-        fi = m.func(caller_q)
-        calls = [c for c in calls_in(fi.node) if call_name(c).endswith(callee)]
-        ctx.floor(f'C03-R1d/{callee}', len(calls), 1, f'call of {callee}')
-        for c in calls:
-            sp = c.args[sp_pos] if len(c.args) > sp_pos else kwarg(c, 'species')
-            if sp is None:
-                ctx.ob('C03-R1d', fi, f'{callee}: no species list passed', False,
-                       'the file\'s own species list is not handed to the writer/reader', line=c.lineno)
+def peel_attr(e, attr):
+    """X for `X.attr`"""
+    return e.value if isinstance(e, ast.Attribute) and e.attr == attr else None
+
+
+def peel_item(e):
+    """(M, K) for `M[K]`, `M.get(K)`, `M.__getitem__(K)`"""
+    if isinstance(e, ast.Subscript) and not isinstance(e.slice, ast.Slice):
+        return e.value, e.slice
+    if isinstance(e, ast.Call) and isinstance(e.func, ast.Attribute) and e.func.attr in ('get', '__getitem__') \
+            and len(e.args) == 1 and not e.keywords:
+        return e.func.value, e.args[0]
+    return None
+
+
+def peel_variable(e):
+    """(file F, field-set name N, variable name K) for `F.groups[N][i].variables[K]`"""
+    it = peel_item(e)
+    if it is None:
+        return None
+    g = peel_attr(it[0], 'variables')
+    if g is None:
+        return None
+    gi = peel_item(g)
+    if gi is None:
+        return None
+    gn = peel_item(gi[0])
+    if gn is None:
+        return None
+    f = peel_attr(gn[0], 'groups')
+    if f is None:
+        return None
+    return f, gn[1], it[1]
+
+
+def canon_key(e):
+    """K for `X.variables[K].name`: a NetCDF variable is registered under its own name"""
+    if isinstance(e, ast.Attribute) and e.attr == 'name':
+        it = peel_item(e.value)
+        if it is not None and peel_attr(it[0], 'variables') is not None:
+            return it[1]
+    return e
+
+
+def _with_expansion(fl, alts, peel):
+    """peel every alternative; an alternative that is a resolved helper call / property read and does not peel as
+    written is replaced by what the helper returns.  -> (list of peeled, first alternative that did not peel)"""
+    out = []
+    for x in alts:
+        r = peel(x)
+        if r is None:
+            ex = fl.expand(x)
+            if ex:
+                rs = [peel(y) for y in ex if not (isinstance(y, ast.Constant) and y.value is None)]
+                if rs and all(q is not None for q in rs):
+                    out += rs
+                    continue
+            return out, x
+        out.append(r)
+    return out, None
+
+
+def loop_conditions(stmt, top, aborting):
+    """In one pass of the loop `top`, when does `stmt` run?  keep: [(test, polarity)] - enclosing ifs and earlier
+    guard clauses that pass over the item (`continue`); leave: [(test, polarity, node)] - earlier guard clauses
+    that end the loop for all later items (`break`, and `return` where a return is not an abort of the whole
+    operation); cx: an exit buried in a form not analysed.  Guard clauses whose last statement is of a type in
+    `aborting` stop everything and are no condition on the item."""
+    keep, leave, cx = [], [], False
+
+    def exits(nodes):
+        for q in nodes:
+            st = [q]
+            while st:
+                x = st.pop()
+                if isinstance(x, (ast.FunctionDef, ast.AsyncFunctionDef, ast.ClassDef, ast.Lambda)):
+                    continue
+                if isinstance(x, ast.Return) and ast.Return not in aborting:
+                    return True
+                if isinstance(x, (ast.Continue, ast.Break)):
+                    return True
+                for ch in ast.iter_child_nodes(x):
+                    if isinstance(x, (ast.For, ast.AsyncFor, ast.While)) and isinstance(ch, ast.stmt):
+                        # continue/break inside a nested loop belong to that loop; a return does not
+                        if ast.Return not in aborting and any(isinstance(y, ast.Return) for y in walk_no_nested(ch)):
+                            return True
+                        continue
+                    st.append(ch)
+        return False
+    child = stmt
+    for a in ancestors(stmt):
+        blk = _block_of(a, child)
+        if blk is None and isinstance(a, ast.match_case) and any(x is child for x in a.body):
+            blk = a.body
+            cx = True
+        if isinstance(a, ast.If) and blk is not None:
+            keep.append((a.test, blk is a.body))
+        elif isinstance(a, ast.While) and blk is a.body and a is not top:
+            keep.append((a.test, True))
+        elif isinstance(a, ast.Try) and blk is not a.body and blk is not a.finalbody:
+            cx = True
+        if blk is not None:
+            for p in blk[:next(i for i, x in enumerate(blk) if x is child)]:
+                inner = [p]
+                if isinstance(p, ast.If):
+                    be, oe = _ends(p.body), bool(p.orelse) and _ends(p.orelse)
+                    if be != oe:
+                        ending, pol = (p.body, True) if be else (p.orelse, False)
+                        last = last_stmt(ending)
+                        while isinstance(last, (ast.If, ast.With)):
+                            last = None     # compound tail: not analysed
+                        if last is None:
+                            cx = True
+                        elif isinstance(last, tuple(aborting)):
+                            pass
+                        elif isinstance(last, ast.Continue):
+                            keep.append((p.test, not pol))
+                        else:
+                            leave.append((p.test, pol, p))
+                        inner = (p.body[:-1] + p.orelse) if be else (p.body + p.orelse[:-1])
+                    elif be and oe:
+                        cx = True
+                if exits(inner):
+                    cx = True
+        if a is top or isinstance(a, (ast.FunctionDef, ast.AsyncFunctionDef)):
+            break
+        child = a
+    return keep, leave, cx
+
+
+class Iteration:
+    """a `for` statement or one clause of a comprehension"""
+
+    def __init__(self, owner, target, it):
+        self.owner, self.target, self.iter = owner, target, it
+        self.lineno = owner.lineno
+        self.is_comp = not isinstance(owner, ast.stmt)
+        self.stmt = stmt_of(owner) if self.is_comp else owner
+        self.ifs = [i for g in owner.generators if g.target is target for i in g.ifs] if self.is_comp else []
+
+    def contains(self, n):
+        return is_within(n, self.owner)
+
+
+def _loop_of_key(fn, key):
+    """the iteration (For statement or comprehension clause) that binds the loop key `name@line`"""
+    if not (isinstance(key, ast.Name) and '@' in key.id):
+        return None
+    nm, line = key.id.rsplit('@', 1)
+    for x in walk_no_nested(fn):
+        if isinstance(x, (ast.For, ast.AsyncFor)) and str(x.lineno) == line and (nm == '?' or nm in names_of_target(x.target)):
+            return Iteration(x, x.target, x.iter)
+        if isinstance(x, (ast.ListComp, ast.SetComp, ast.DictComp, ast.GeneratorExp)) and str(x.lineno) == line:
+            for g in x.generators:
+                if nm in names_of_target(g.target) or (nm == '?' and map_iteration(g.target, g.iter) is not None
+                                                       and map_iteration(g.target, g.iter)[1] is None):
+                    return Iteration(x, g.target, g.iter)
+    return None
+
+
+def visit_conditions(n, st, outer, aborting):
+    """keep / leave / cx (see loop_conditions) for expression n of statement st relative to the outermost iteration
+    `outer`: the statement-level conditions inside a `for` statement plus the conditional expressions, short-circuit
+    operands and comprehension `if`s between n and its statement"""
+    keep = [(t, pol) for t, pol, _ in guards_of(n, stop=st)] if n is not st else []
+    leave, cx = [], False
+    if not outer.is_comp:
+        k2, leave, cx = loop_conditions(st, outer.owner, aborting)
+        keep += k2
+    return keep, leave, cx
+
+
+def iteration_paths(body, visits, aborting, cap=3000):
+    """Every way through one pass of a loop body, statement by statement: -> [(kind, visited, conditions)] with kind
+    'abort' (the whole operation ends: a statement of a type in `aborting`), 'next' (the pass ends: end of body or
+    `continue`), 'leave' (the loop ends for all later items: `break`, or `return` where that is no abort), and
+    conditions the [(test, polarity)] taken on the way.  visited: a statement for which visits(stmt) holds was
+    executed.  Locals bound to constants (`found = False`) are tracked, so that a flag set in one branch decides a
+    later test on that path; every other test is followed both ways.  Nested loops and other compound statements
+    are single steps (a `return`/`raise` buried in them is not followed).  None if there are more than `cap` ways."""
+    out = []
+    count = [0]
+
+    class TooMany(Exception):
+        pass
+
+    def ev(e, env):
+        if isinstance(e, ast.Constant):
+            return bool(e.value)
+        if isinstance(e, ast.Name):
+            return bool(env[e.id]) if e.id in env else None
+        if isinstance(e, ast.UnaryOp) and isinstance(e.op, ast.Not):
+            v = ev(e.operand, env)
+            return None if v is None else not v
+        if isinstance(e, ast.BoolOp):
+            vs = [ev(v, env) for v in e.values]
+            if isinstance(e.op, ast.And):
+                return False if any(v is False for v in vs) else (True if all(v is True for v in vs) else None)
+            return True if any(v is True for v in vs) else (False if all(v is False for v in vs) else None)
+        if isinstance(e, ast.Compare) and len(e.ops) == 1 and isinstance(e.left, ast.Name) and e.left.id in env \
+                and isinstance(e.comparators[0], ast.Constant):
+            a_, b_ = env[e.left.id], e.comparators[0].value
+            op = e.ops[0]
+            if isinstance(op, (ast.Is, ast.Eq)):
+                return a_ is b_ if isinstance(op, ast.Is) else a_ == b_
+            if isinstance(op, (ast.IsNot, ast.NotEq)):
+                return a_ is not b_ if isinstance(op, ast.IsNot) else a_ != b_
+        return None
+
+    def run(stmts, env, visited, conds, k):
+        """k: continuation called with (env, visited, conds) when the block falls through"""
+        if not stmts:
+            return k(env, visited, conds)
+        s, rest = stmts[0], stmts[1:]
+        count[0] += 1
+        if count[0] > cap:
+            raise TooMany()
+        if isinstance(s, ast.If):
+            v = ev(s.test, env)
+            for pol, blk in ((True, s.body), (False, s.orelse)):
+                if v is None or v is pol:
+                    c2 = conds if v is not None else conds + [(s.test, pol)]
+                    run(list(blk), dict(env), visited, c2, lambda e_, vi, co: run(rest, e_, vi, co, k))
+            return
+        if visits(s):
+            visited = True
+        if isinstance(s, tuple(aborting)):
+            out.append(('abort', visited, conds))
+            return
+        if isinstance(s, ast.Continue):
+            out.append(('next', visited, conds))
+            return
+        if isinstance(s, (ast.Break, ast.Return)):
+            out.append(('leave', visited, conds))
+            return
+        if isinstance(s, (ast.With, ast.AsyncWith)):
+            return run(list(s.body), env, visited, conds, lambda e_, vi, co: run(rest, e_, vi, co, k))
+        if isinstance(s, (ast.Assign, ast.AnnAssign)) and getattr(s, 'value', None) is not None:
+            tg = s.targets if isinstance(s, ast.Assign) else [s.target]
+            for t in tg:
+                for nm in names_of_target(t):
+                    env.pop(nm, None)
+                if isinstance(t, ast.Name) and isinstance(s.value, ast.Constant):
+                    env[t.id] = s.value.value
+                elif isinstance(t, (ast.Tuple, ast.List)) and isinstance(s.value, (ast.Tuple, ast.List)) \
+                        and len(t.elts) == len(s.value.elts):
+                    for a_, b_ in zip(t.elts, s.value.elts):
+                        if isinstance(a_, ast.Name) and isinstance(b_, ast.Constant):
+                            env[a_.id] = b_.value
+        else:
+            for t, stx, how in stores_to(s):
+                for nm in names_of_target(t) if isinstance(t, (ast.Name, ast.Tuple, ast.List)) else ():
+                    env.pop(nm, None)
+        return run(rest, env, visited, conds, k)
+
+    try:
+        run(list(body), {}, False, [], lambda e_, vi, co: out.append(('next', vi, co)))
+    except TooMany:
+        return None
+    except RecursionError:
+        return None
+    return out
+
+
+def skip_verdict(fn, conds, itemvars, varg, value_ok):
+    """conds hold on a way through a loop body that passes an item over.  -> (restrictions, not understood): empty
+    restrictions when the item-dependent conditions are none, or (value_ok) include "the value is unset"."""
+    cats = [cp for e, pol in conds for cp in categorise_fact(fn, e, pol, itemvars, varg)]
+    if value_ok and ('value', False) in cats:
+        return [], []
+    restr = [(c_, p_) for c_, p_ in cats if c_ != 'global' and not c_.startswith('other:')]
+    und = [c_ for c_, p_ in cats if c_.startswith('other:')]
+    return restr, und
+
+
+def filter_verdict(fn, keep, itemvars, varg, value_ok):
+    """Which of the conditions under which an item is visited restrict the visit to some items?
+    keep: [(test, polarity)].  A condition that splits into atomic facts is judged fact by fact; one that does not
+    (what is left of `if a and b: continue`) is judged through its negation, the conjunction under which the item is
+    passed over: a skip that needs the value to be unset only passes over unset values (allowed for the writer).
+    -> (restrictions [(category, polarity)], conditions not understood [text])"""
+    restr, und = [], []
+    for e, pol in keep:
+        cats = categorise_fact(fn, e, pol, itemvars, varg)
+        if any(c_.startswith('other:') for c_, p_ in cats):
+            neg = categorise_fact(fn, e, not pol, itemvars, varg)
+            if not any(c_.startswith('other:') for c_, p_ in neg):
+                if value_ok and ('value', False) in neg:
+                    continue
+                # visited only where NOT (all of neg): each item-dependent conjunct, inverted, is a restriction
+                restr += [(c_, not p_) for c_, p_ in neg if c_ != 'global']
                 continue
-            var = c.args[0]
-            # species side
-            spx = sp
-            if isinstance(spx, ast.Name):
-                d = single_def_value(fi.node, spx.id)
-                spx = d if d is not None else spx
-            sb, sattr = _base_name(spx) if spx is not None else (None, None)
-            # variable side: var <- group.variables[...] ; group <- X.groups[...]
-            vx = var
-            if isinstance(vx, ast.Name):
-                d = single_def_value(fi.node, vx.id)
-                vx = d if d is not None else vx
-            gb, _ = _base_name(vx)
-            if gb is not None:
-                gd = single_def_value(fi.node, gb)
-                if gd is not None:
-                    gb2, gattr = _base_name(gd)
-                    if gattr == 'groups':
-                        gb = gb2
-            ok = sb is not None and sattr == 'species' and sb == gb
-            ctx.ob('C03-R1d', fi, f'{callee}: variable from `{gb}`, species list `{norm(sp)[:50]}`', ok,
-                   'species positions come from the file object that owns the variable' if ok else
-                   (f'the species list passed to {callee} is `{norm(spx)[:70]}`, not the `.species` of `{gb}`, the file '
-                    'that owns the variable: in a store split over base and associated files the two lists differ '
-                    '(after reopening) and species values are written to / read from the wrong slots or dropped'),
-                   line=c.lineno)
+        for c_, p_ in cats:
+            if c_ == 'global' or (value_ok and (c_, p_) == ('value', True)):
+                continue
+            if c_.startswith('other:'):
+                und.append(c_)
+            else:
+                restr.append((c_, p_))
+    return restr, und
+
+
+def _say_cat(c, p):
+    kind, _, what = c.partition(':')
+    return {'meta': f'`{what}` is {p}', 'dim': f'the field has {"a" if p else "no"} {what} dimension',
+            'ident': f'`{what}` is {p}', 'value': 'a value is set' if p else 'no value is set'}.get(kind, c)
+
+
+def rule_field_flow(ctx, m):
+    """R6 (second half) and R1d, by value flow: for the call of the writer in `_write_data` and of the reader in
+    `_load_trajectory`, every argument is resolved to what it denotes (Flow) and the rule compares *which* variable
+    object, field definition, value and species list meet in the call, and which items the enclosing loops visit."""
+    prog = ctx.prog
+    wr = m.func('TrajectoryStore._write_to_nc_var')
+    rd = m.func('TrajectoryStore._read_from_nc_var')
+    for role, caller_q, callee in (('writer', 'TrajectoryStore._write_data', wr),
+                                   ('reader', 'TrajectoryStore._load_trajectory', rd)):
+        fi = m.func(caller_q)
+        fl = Flow(prog, fi)
+        calls = [c for c in calls_in(fi.node) if resolve_call(prog, fi, c) == callee or
+                 call_name(c).endswith('.' + callee.name)]
+        ctx.floor(f'C03-R1d/{callee.name}', len(calls), 1, f'call of {callee.name}')
+        for c in calls:
+            st = stmt_of(c)
+            arg = {p_: _arg_for_param(callee, c, p_) for p_ in callee.params}
+            vparam = callee.params[1] if len(callee.params) > 1 else None
+            var = arg.get('var', arg.get(vparam))
+            if var is None:
+                ctx.undecided('C03-R1d', fi, norm(c)[:60], 'cannot tell which argument is the NetCDF variable')
+            var_alts = fl.alts(var, st)
+            vps, bad = _with_expansion(fl, var_alts, peel_variable)
+            if bad is not None:
+                ctx.undecided('C03-R1d', fi, untag(norm(bad))[:70], 'cannot tell which file and group the variable handed to '
+                              f'{callee.name} belongs to')
+            owners_var = sorted({norm(f) for f, n_, k in vps})
+            # ---- R1d: species list of the same file object
+            sp = arg.get('species')
+            if sp is None:
+                ctx.ob('C03-R1d', fi, f'{callee.name}: no species list passed', False,
+                       'the file\'s own species list is not handed to the writer/reader', line=c.lineno)
+            else:
+                sp_alts = fl.alts(sp, st)
+                sps, bad = _with_expansion(fl, [_strip_seq(x) for x in sp_alts],
+                                           lambda x: peel_attr(_strip_seq(x), 'species'))
+                if bad is not None:
+                    ctx.undecided('C03-R1d', fi, untag(norm(bad))[:70], f'cannot tell whose species list is handed to {callee.name}')
+                owners_sp = sorted({norm(x) for x in sps})
+                ok = owners_sp == owners_var
+                extra = ''
+                if not ok:
+                    for x in sp_alts:
+                        ex = fl.expand(_strip_seq(x))
+                        if ex:
+                            extra = f' (`{untag(norm(_strip_seq(x)))}` yields ' + \
+                                ' / '.join(sorted({untag(norm(y))[:60] for y in ex})) + ')'
+                            break
+                ctx.ob('C03-R1d', fi, f'{callee.name}: variable from `{untag(" | ".join(owners_var))[:60]}`, species list '
+                       f'`{untag(norm(sp_alts[0]))[:60]}`', ok,
+                       'species positions come from the file object that owns the variable' if ok else
+                       (f'the species list passed to {callee.name} is `{untag(norm(sp_alts[0]))[:80]}`{extra}, not the `.species` of '
+                        f'`{untag(" | ".join(owners_var))[:80]}`, the file that owns the variable: in a store split over base '
+                        'and associated files the two lists differ (after reopening) and species values are written to / '
+                        'read from the wrong slots or dropped'), line=c.lineno)
+            # ---- R6: one name for variable, field definition, value; one field set for group and definitions
+            keys = {'variable': {norm(canon_key(k)) for f, n_, k in vps}}
+            fsnames = {'group': {norm(n_) for f, n_, k in vps}}
+            if arg.get('name') is not None:
+                keys['name argument'] = {norm(canon_key(x)) for x in fl.alts(arg['name'], st)}
+            if arg.get('field') is not None:
+                fps, bad = _with_expansion(fl, fl.alts(arg['field'], st), peel_item)
+                if bad is not None:
+                    ctx.undecided('C03-R6', fi, untag(norm(bad))[:70], 'cannot tell which field definition is handed to '
+                                  f'{callee.name}')
+                keys['field definition'] = {norm(canon_key(k)) for f_, k in fps}
+                reg = set()
+                for f_, k in fps:
+                    while isinstance(f_, ast.Attribute) and f_.attr in ('fields', '_fields'):
+                        f_ = f_.value
+                    if isinstance(f_, ast.Call) and len(f_.args) == 1 and not f_.keywords:
+                        reg.add(norm(f_.args[0]))       # FieldSet.from_registry(N), lookup(N)
+                    elif peel_item(f_) is not None:
+                        reg.add(norm(peel_item(f_)[1]))     # a table of field sets indexed by N
+                    else:
+                        ctx.undecided('C03-R6', fi, untag(norm(f_))[:70], 'cannot tell which field set the field definitions '
+                                      'belong to')
+                fsnames['field definitions'] = reg
+            srcs = set()
+            if role == 'writer':
+                val = arg.get('val')
+                if val is None:
+                    ctx.undecided('C03-R6', fi, norm(c)[:60], 'cannot tell which argument is the value written')
+                vk = set()
+                val_alts = []
+                for x in fl.alts(val, st):
+                    ex = None if (isinstance(x, ast.Call) and call_name(x) == 'getattr') else fl.expand(x)
+                    val_alts += ex if ex else [x]
+                for x in val_alts:
+                    if isinstance(x, ast.Constant) and x.value is None:
+                        continue
+                    if isinstance(x, ast.Call) and call_name(x) == 'getattr' and len(x.args) in (2, 3):
+                        vk.add(norm(canon_key(x.args[1])))
+                        srcs.add(norm(x.args[0]))
+                    else:
+                        ctx.undecided('C03-R6', fi, untag(norm(x))[:70], 'cannot tell where the value written comes from')
+                ctx.floor('C03-R6/value', len(vk), 1, 'source of the value written')
+                keys['value'] = vk
+            allk = set().union(*keys.values())
+            ok = len(allk) == 1
+            what = ('value written for a variable is the attribute of the same name' if role == 'writer' else
+                    'variable read and field definition go by one name')
+            ctx.ob('C03-R6', fi, what, ok,
+                   ('getattr(%s, name) -> variables[name], fields[name]' % '|'.join(sorted(untag(x) for x in srcs)))
+                   if ok and role == 'writer' else 'variables[name], fields[name]' if ok else
+                   ('the names differ: ' + '; '.join(f'{k}: {untag(", ".join(sorted(v)))}' for k, v in keys.items()) +
+                    (' - the value written does not come from the field of the same name' if role == 'writer' else
+                     ' - the variable read is not the one of the field it is stored under')), line=c.lineno)
+            alln = set().union(*fsnames.values())
+            ok = len(alln) == 1
+            ctx.ob('C03-R6', fi, f'{role}: group and field definitions belong to one field set', ok,
+                   untag(next(iter(alln))) if ok else
+                   ('the group comes from field set `%s` but the definitions from `%s`' % (
+                       untag(', '.join(sorted(fsnames['group']))), untag(', '.join(sorted(fsnames.get('field definitions', ['?'])))))),
+                   line=c.lineno, nontrivial=False)
+            # ---- R6: every field of every field set is visited
+            key_node = vps[0][2]
+            fs_node = vps[0][1]
+            floop = _loop_of_key(fi.node, key_node)
+            sloop = _loop_of_key(fi.node, fs_node)
+            if floop is None or not floop.contains(c):
+                ctx.undecided('C03-R6', fi, untag(norm(key_node)), 'the variable name is not the key of an enclosing loop')
+            if sloop is None or not sloop.contains(floop.owner):
+                ctx.undecided('C03-R6', fi, untag(norm(fs_node)), 'the field-set name is not the key of an enclosing loop')
+            # what the loops run over
+            fmap = [untag(norm(x)) for x in fl.alts(iterated_mapping(floop.iter)[0], floop.stmt)] if iterated_mapping(floop.iter) else []
+            group_txt = {untag(norm(peel_attr(peel_item(x)[0], 'variables'))) for x in var_alts
+                         if peel_item(x) and peel_attr(peel_item(x)[0], 'variables') is not None}
+            fs_txt = {untag(norm(f_)) for f_, k in (fps if arg.get('field') is not None else [])}
+            over_fields = bool(fmap) and all(
+                any(t == g + '.variables' for g in group_txt) or t in fs_txt or any(t == f_ + '.fields' for f_ in fs_txt)
+                for t in fmap)
+            smap = [untag(norm(x)) for x in fl.alts(iterated_mapping(sloop.iter)[0], sloop.stmt)] if iterated_mapping(sloop.iter) else []
+            store_wide = [t for t in smap if t in ('self._nc', 'list(self._nc.keys())', 'self._nc.keys()', 'list(self._nc)')]
+            over_sets = bool(smap) and (len(store_wide) == len(smap) or
+                                        (role == 'writer' and all(t in store_wide or t in fi.params for t in smap)))
+            if not over_fields:
+                ctx.undecided('C03-R6', fi, norm(floop.iter)[:60], 'the field loop runs over something that is neither the '
+                              'group\'s variables nor the field set\'s fields')
+            if not over_sets:
+                ctx.undecided('C03-R6', fi, norm(sloop.iter)[:60], 'the field-set loop does not run over the store\'s field sets')
+            sliced = [lp for lp in (floop, sloop) if not _plain_iter(lp.iter)]
+            aborting = (ast.Raise,) if role == 'writer' else (ast.Raise, ast.Return)
+            itemvars = names_of_target(floop.target) | names_of_target(sloop.target)
+            for t, stx, how in stores_to(sloop.owner):
+                if isinstance(t, ast.Name) and how in ('assign', 'ann') and \
+                        any(isinstance(x, ast.Name) and x.id in itemvars for x in ast.walk(stx.value)):
+                    itemvars.add(t.id)
+            varg = arg.get('val') if role == 'writer' else None
+            restr, und, lv, cx = [], [], [], False
+            # level 1: one pass of the field iteration reaches this call; level 2: one pass of the field-set iteration
+            # reaches a call of the reader/writer
+            levels = []
+            if floop.is_comp or sloop.is_comp:
+                keep, leave, cx = visit_conditions(c, st, sloop, aborting)
+                restr, und = filter_verdict(fi.node, keep, itemvars, varg, role == 'writer')
+                lv = [(e, pol) for e, pol, n_ in leave]
+            if not floop.is_comp:
+                levels.append((floop, lambda s_: is_within(c, s_), True))
+            if not sloop.is_comp and sloop.owner is not floop.owner:
+                levels.append((sloop, lambda s_: any(is_within(x, s_) for x in calls), False))
+            for lp_, vis, inner in levels:
+                paths = iteration_paths(lp_.owner.body, vis, aborting)
+                if paths is None:
+                    cx = True
+                    continue
+                for kind, visited, conds in paths:
+                    if kind == 'abort' or (kind == 'next' and visited):
+                        continue
+                    r_, u_ = skip_verdict(fi.node, conds, itemvars, varg, role == 'writer' and kind == 'next' and inner)
+                    if kind == 'leave' and r_:
+                        lv.append((conds, r_))
+                    elif r_:
+                        restr += [x for x in r_ if x not in restr]
+                    und += u_ if not r_ else []
+            soft = lambda rs: bool(rs) and all(c_.startswith('ident:') for c_, p_ in rs)   # noqa: E731
+            if not sliced and (soft(restr) or (not restr and lv and all(soft(r_) for co_, r_ in lv if isinstance(co_, list)))):
+                # a condition on the item that is neither about its definition (dimensions, metadata) nor about its
+                # value: whether it ever holds cannot be told from the code
+                r0 = restr[0] if restr else lv[0][1][0]
+                ctx.undecided('C03-R6', fi, norm(floop.iter)[:60], f'fields are passed over where {_say_cat(*r0)}: cannot tell '
+                              'whether that ever holds for a field of the field set')
+            ok = not restr and not lv and not sliced
+            if ok and (und or cx):
+                ctx.undecided('C03-R6', fi, norm(floop.iter)[:60], ('condition on the field loop not understood: ' + und[0][6:])
+                              if und else 'the field loop is left early or has guard clauses of a form not analysed')
+            why = 'no filter on the loops over field sets and fields'
+            if sliced:
+                why = f'the loop source `{norm(sliced[0].iter)[:60]}` is sliced or filtered: some fields are skipped by the field loop'
+            elif restr:
+                why = ('some fields are skipped by the field loop: ' + callee.name + ' is not reached for fields where ' +
+                       ' and '.join(_say_cat(c_, p_) for c_, p_ in restr))
+            elif lv:
+                why = ('the loop is left at the first field for which ' +
+                       ' and '.join(f'`{norm(e)[:50]}` is {pol}' for e, pol in (lv[0][0] if isinstance(lv[0][0], list) else [lv[0]])) +
+                       ': the fields after it are not ' + ('written' if role == 'writer' else 'read'))
+            ctx.ob('C03-R6', fi, f'{role}: every field of every field set is visited', ok, why, line=floop.lineno)
+            if role == 'reader':
+                _reader_result_flow(ctx, fi, fl, c, st, key_node, floop, sloop)
+
+
+def _reader_result_flow(ctx, fi, fl, c, st, key_node, floop, sloop):
+    """what `_read_from_nc_var` returns is kept under the name of its field and assigned to the trajectory field of
+    that name, for every field read, whatever the value (None is a value: an unset optional field)"""
+    ab = (ast.Raise, ast.Return)
+    kept = []       # (container: set of texts / comprehension node, key texts, node kept at, statement)
+    for t, stx, how in stores_to(fi.node):
+        if isinstance(t, ast.Subscript) and how == 'assign' and floop.contains(stx):
+            if any(same_site(v, c) for v in fl.alts(stx.value, stx)):
+                kept.append(({norm(b_) for b_ in fl.alts(t.value, stx)}, None, {norm(k) for k in fl.alts(t.slice, stx)}, stx, stx))
+    # `{name: <read> for name, field in …}` handed to a container (update / |= / plain assignment)
+    p_ = getattr(c, '_parent', None)
+    if isinstance(p_, ast.DictComp) and p_.value is c:
+        holder = getattr(p_, '_parent', None)
+        bases = set()
+        if isinstance(holder, ast.Call) and isinstance(holder.func, ast.Attribute) and holder.func.attr == 'update':
+            bases = {norm(b_) for b_ in fl.alts(holder.func.value, st)}
+        elif isinstance(holder, ast.AugAssign) and isinstance(holder.op, ast.BitOr):
+            bases = {norm(b_) for b_ in fl.alts(holder.target, st)} if isinstance(holder.target, ast.Name) else set()
+            bases = {f'{holder.target.id}@{d[1].lineno}' for d in fl.reaching(holder.target.id, st) if d[0] == 'val'} or bases
+        kept.append((bases, p_, {norm(k) for k in fl.alts(p_.key, st)}, c, st))
+    direct = [x for x in calls_in(floop.owner) if call_name(x) == 'setattr' and len(x.args) == 3 and
+              any(same_site(v, c) for v in fl.alts(x.args[2], stmt_of(x)))]
+    if not kept and not direct:
+        ctx.undecided('C03-R6', fi, norm(c)[:50], 'cannot tell where the value read is kept')
+    k0 = norm(key_node)
+    keep0, leave0, cx0 = visit_conditions(c, st, sloop, ab)
+    for bases, comp, ks, node, stx in kept:
+        ok = ks == {k0}
+        keep, leave, cx = visit_conditions(node, stx, sloop, ab)
+        more = [(e, p) for e, p in keep if not any(e is e0 for e0, _ in keep0)]
+        ok2 = not more and len(leave) == len(leave0)
+        ctx.ob('C03-R6', fi, 'value read for a variable is kept under the name of its field', ok and ok2,
+               f'{untag(", ".join(sorted(bases)) or "mapping")}[name] = value read' if ok and ok2 else
+               ('read values are assigned under a different name: ' + untag(', '.join(sorted(ks))) + ' instead of ' + untag(k0)
+                if not ok else f'the value read is only kept when `{norm(more[0][0])[:60]}` is {more[0][1]}' if more else
+                'the loop can be left between reading a value and keeping it'), line=stx.lineno)
+
+    def is_kept_container(e):
+        return any(norm(e) in bases or (comp is not None and same_site(e, comp)) for bases, comp, ks, node, stx in kept)
+    sets = [x for x in calls_in(fi.node) if call_name(x) == 'setattr' and len(x.args) == 3 and x not in direct]
+    used = []
+    for x in sets:
+        sx = stmt_of(x)
+        for v in fl.alts(x.args[2], sx):
+            it = peel_item(v)
+            if it is not None and is_kept_container(it[0]):
+                used.append((x, sx, it, {norm(k) for k in fl.alts(x.args[1], sx)}))
+    if kept:
+        ctx.floor('C03-R6/assign', len(used), 1, 'assignment of the values read to the trajectory')
+    for x, sx, (base, key), names in used:
+        ok = names == {norm(key)}
+        ctx.ob('C03-R6', fi, 'value read for a variable is assigned to the field of the same name', ok,
+               f'setattr(…, name, {untag(norm(base))[:40]}[name])' if ok else
+               f'read values are assigned under a different name: `{untag(", ".join(sorted(names)))}` gets the value read for '
+               f'`{untag(norm(key))}`', line=x.lineno)
+        lp = _loop_of_key(fi.node, key)
+        if lp is None or not lp.contains(x):
+            ctx.undecided('C03-R6', fi, norm(x)[:50], 'the assignment is not in a loop over the values read')
+        over = fl.alts(iterated_mapping(lp.iter)[0], lp.stmt) if iterated_mapping(lp.iter) else []
+        if not over or not all(is_kept_container(y) for y in over):
+            ctx.undecided('C03-R6', fi, norm(lp.iter)[:50], 'the assignment loop does not run over the values read')
+        keep, leave, cx = visit_conditions(x, sx, lp, (ast.Raise,))
+        ok = not keep and not leave and not cx and _plain_iter(lp.iter)
+        ctx.ob('C03-R6', fi, f'{norm(x)} runs for every value read', ok,
+               'unconditional in the loop over the values read' if ok else
+               ('the assignment is skipped for some values (' +
+                (f'it runs only when `{norm(keep[0][0])}` is {keep[0][1]}' if keep else
+                 ('the loop is left when ' + norm(leave[0][0])) if leave else
+                 'continue/break in the loop' if cx else 'the loop source is sliced or filtered') +
+                '): the freshly constructed trajectory keeps the field\'s declared default there, so an optional field that was '
+                'stored unset (None) reads back as its default instead of None'), line=x.lineno)
 
 
 # ---------------------------------------------------------------- R7 -----
@@ -991,41 +2531,209 @@ def _is_empty_container(v):
     return False
 
 
+def _typed(x, self_name='self'):
+    """the expression is a fresh value of the field's own data type: `….astype(self.field_type, …)` (not copy=False),
+    `np.array(…, dtype=self.field_type)`, `self.field_type(…)`, `.item()` / `[()]` of such, either arm of a
+    conditional expression"""
+    ft = f'{self_name}.field_type'
+    if isinstance(x, ast.IfExp):
+        return _typed(x.body, self_name) and _typed(x.orelse, self_name)
+    if isinstance(x, ast.Subscript) and isinstance(x.slice, ast.Tuple) and not x.slice.elts:
+        return _typed(x.value, self_name)
+    if not isinstance(x, ast.Call):
+        return False
+    cp = kwarg(x, 'copy')
+    nocopy = cp is not None and not (isinstance(cp, ast.Constant) and cp.value is True)
+    if isinstance(x.func, ast.Attribute) and x.func.attr == 'item' and not x.args:
+        return _typed(x.func.value, self_name)
+    if isinstance(x.func, ast.Attribute) and x.func.attr == 'astype':
+        dt = x.args[0] if x.args else kwarg(x, 'dtype')
+        return dt is not None and norm(dt) == ft and not nocopy
+    if call_name(x) in ('np.array', 'numpy.array'):
+        dt = kwarg(x, 'dtype') or (x.args[1] if len(x.args) > 1 else None)
+        return dt is not None and norm(dt) == ft and not nocopy
+    if norm(x.func) == ft and len(x.args) == 1:
+        return True
+    return False
+
+
+_ALIASING = ('np.asarray', 'np.asanyarray', 'np.array', 'numpy.asarray', 'numpy.array', 'np.ascontiguousarray', 'list', 'tuple',
+             'dict', 'np.squeeze', 'np.ravel', 'np.atleast_1d')
+_ALIASING_METHODS = ('copy', 'filled', 'view', 'reshape', 'ravel', 'squeeze', 'values', 'items', 'keys', 'get', 'tolist')
+
+
+class Owned:
+    """R8 over convert_in: is what a return hands back built from `self._cast(…)` of the incoming data (own copy,
+    field dtype) - through containers, comprehensions, conditional expressions, locals and resolved helper methods -
+    or does the incoming object (or a part of it) get through as it came?  -> True | False (with the leaf) | None"""
+
+    def __init__(self, prog, cast_fi):
+        self.prog, self.cast_fi = prog, cast_fi
+        self.leaf = None
+
+    def derived(self, e, inc):
+        return any(isinstance(x, ast.Name) and x.id in inc for x in ast.walk(e))
+
+    def of(self, fi, fl, e, at, inc, depth=0):
+        if depth > 8:
+            return None
+        if e is None or (isinstance(e, ast.Constant) and e.value is None):
+            return True
+        if isinstance(e, ast.IfExp):
+            return self._all([self.of(fi, fl, e.body, at, inc, depth + 1), self.of(fi, fl, e.orelse, at, inc, depth + 1)])
+        if isinstance(e, ast.BoolOp):
+            return self._all([self.of(fi, fl, v, at, inc, depth + 1) for v in e.values])
+        if isinstance(e, ast.Name):
+            rs = []
+            for d in fl.reaching(e.id, at):
+                if d[0] == 'val' and _is_fresh_container(d[2]) and not (getattr(d[2], 'elts', None) or getattr(d[2], 'keys', None)):
+                    # a container built empty and filled by element stores / add-methods: what is put into it
+                    put = [(stx.value, stx) for t, stx, how in stores_to(fi.node)
+                           if isinstance(t, ast.Subscript) and isinstance(t.value, ast.Name) and t.value.id == e.id
+                           and how == 'assign']
+                    for c_ in calls_in(fi.node):
+                        if isinstance(c_.func, ast.Attribute) and isinstance(c_.func.value, ast.Name) and \
+                                c_.func.value.id == e.id and c_.func.attr in ('append', 'add', 'update', 'extend', 'setdefault'):
+                            put += [(a_, stmt_of(c_)) for a_ in c_.args[-1:]]
+                    rs.append(self._all([self.of(fi, fl, v_, s_, inc, depth + 1) for v_, s_ in put]) if put else None)
+                elif d[0] == 'val':
+                    rs.append(self.of(fi, fl, d[2], d[1], inc, depth + 1))
+                elif d[0] == 'comp':
+                    rs.append(False if self.derived_at(fl, d[2], d[1], inc) else None)
+                    if rs[-1] is False:
+                        self.leaf = self.leaf or e
+                elif d[0] == 'param':
+                    if e.id in inc:
+                        self.leaf = e
+                        rs.append(False)
+                    else:
+                        rs.append(None)
+                elif d[0] == 'iter':
+                    own = d[1] if isinstance(d[1], ast.stmt) else stmt_of(d[1])
+                    if self.derived_at(fl, d[3], own, inc):
+                        self.leaf = self.leaf or e
+                        rs.append(False)
+                    else:
+                        rs.append(None)
+                else:
+                    rs.append(None)
+            return self._all(rs)
+        if isinstance(e, (ast.DictComp,)):
+            inc2 = self._comp_inc(e, inc)
+            return self.of(fi, fl, e.value, at, inc2, depth + 1)
+        if isinstance(e, (ast.ListComp, ast.GeneratorExp, ast.SetComp)):
+            inc2 = self._comp_inc(e, inc)
+            elt = e.elt
+            if isinstance(elt, ast.Tuple) and len(elt.elts) == 2:
+                elt = elt.elts[1]
+            return self.of(fi, fl, elt, at, inc2, depth + 1)
+        if isinstance(e, ast.Dict):
+            return self._all([self.of(fi, fl, v, at, inc, depth + 1) for v in e.values])
+        if isinstance(e, (ast.Tuple, ast.List)):
+            return self._all([self.of(fi, fl, v, at, inc, depth + 1) for v in e.elts])
+        if isinstance(e, ast.Call):
+            if _typed(e):
+                return True
+            callee = resolve_call(self.prog, fi, e)
+            if callee is not None and callee == self.cast_fi:
+                return True
+            f = e.func
+            while isinstance(f, ast.Subscript):       # SpeciesValues[ThrustModeValues](…)
+                f = f.value
+            is_cls = resolve_class_call(self.prog, fi, ast.Call(func=f, args=e.args, keywords=e.keywords)) is not None \
+                or (isinstance(f, ast.Name) and f.id in ('dict', 'OrderedDict'))
+            if is_cls and len(e.args) + len(e.keywords) <= 1:
+                if not e.args and not e.keywords:
+                    return True
+                a_ = e.args[0] if e.args else e.keywords[0].value
+                return self.of(fi, fl, a_, at, inc, depth + 1)
+            if callee is not None and callee.node is not fi.node:
+                binds = {}
+                ps = callee.params
+                off = 1 if ps[:1] in (['self'], ['cls']) and isinstance(e.func, ast.Attribute) else 0
+                for p_, a_ in zip(ps[off:], e.args):
+                    binds[p_] = a_
+                for k in e.keywords:
+                    if k.arg:
+                        binds[k.arg] = k.value
+                inc2 = {p_ for p_, a_ in binds.items() if self.derived(a_, inc)}
+                f2 = Flow(self.prog, callee)
+                rs = [self.of(callee, f2, r.value, r, inc2, depth + 1)
+                      for r in walk_no_nested(callee.node) if isinstance(r, ast.Return)]
+                return self._all(rs) if rs else None
+            if (call_name(e) in _ALIASING and any(self.derived(a_, inc) for a_ in e.args)) or (
+                    isinstance(e.func, ast.Attribute) and e.func.attr in _ALIASING_METHODS and self.derived(e.func.value, inc)):
+                self.leaf = self.leaf or e
+                return False
+            return None
+        if isinstance(e, (ast.Attribute, ast.Subscript)):
+            if self.derived(e, inc):
+                self.leaf = self.leaf or e
+                return False
+            return None
+        return None
+
+    def derived_at(self, fl, e, at, inc):
+        """e, evaluated at statement `at`, is (a part of / a view of) the incoming data"""
+        return any(self.derived(x, inc) for x in fl.alts(e, at))
+
+    def _comp_inc(self, comp, inc):
+        inc2 = set(inc)
+        for g in comp.generators:
+            if self.derived(g.iter, inc2):
+                inc2 |= names_of_target(g.target)
+        return inc2
+
+    @staticmethod
+    def _all(rs):
+        if any(r is False for r in rs):
+            return False
+        if rs and all(r is True for r in rs):
+            return True
+        return None
+
+
 def rule_cast(ctx):
-    """R8: every value accepted into a field is brought to the field's own data
-    type (what is stored is what the NetCDF variable will hold): each return of
-    FieldMetadata._cast derives from `.astype(self.field_type, …)`."""
-    fs = ctx.prog.module(FS)
+    """R8: every value accepted into a field is brought to the field's own data type (what is stored is what the
+    NetCDF variable will hold) and is the container's own copy: each return of FieldMetadata._cast is a fresh value
+    of `self.field_type`, and every return of convert_in is None or built from `self._cast(…)` of the incoming
+    data - followed through locals, containers, comprehensions and resolved helper methods."""
+    prog = ctx.prog
+    fs = prog.module(FS)
     fi = fs.func('FieldMetadata._cast')
+    fl = Flow(prog, fi)
     rets = [n for n in walk_no_nested(fi.node) if isinstance(n, ast.Return) and n.value is not None]
     ctx.floor('C03-R8', len(rets), 1, 'returns of _cast')
     for r in rets:
-        v = r.value
-        ok = False
-        if isinstance(v, ast.Name):
-            defs = [st for t, st, how in stores_to(fi.node) if isinstance(t, ast.Name) and t.id == v.id]
-            srcs = ' '.join(norm(d.value) for d in defs)
-            ok = bool(defs) and 'astype(self.field_type' in srcs and all(
-                'astype(self.field_type' in norm(d.value) or f'{v.id}.item()' in norm(d.value) for d in defs)
-        elif 'astype(self.field_type' in norm(v):
-            ok = True
-        ctx.ob('C03-R8', fi, f'return {norm(v)[:50]}', ok,
+        al = fl.alts(r.value, r)
+        bad = [x for x in al if not _typed(x)]
+        ok = not bad and not fl.overflow
+        ctx.ob('C03-R8', fi, f'return {norm(r.value)[:50]}', ok,
                'value cast to the field type' if ok else
-               ('a value is returned without being cast to the field\'s data type: for a field narrower than a Python '
-                'float (float32, float16) the trajectory keeps the double and reads back a different, rounded value'),
-               line=r.lineno)
+               (f'a value is returned without being cast to the field\'s data type (`{untag(norm(bad[0]))[:60]}`): for a field '
+                'narrower than a Python float (float32, float16) the trajectory keeps the double and reads back a different, '
+                'rounded value') if bad else 'too many alternatives', line=r.lineno)
     # ... and every value that convert_in accepts goes through _cast (which also gives the container its own
     # copy: astype copies unless told otherwise)
     ci = fs.func('FieldMetadata.convert_in')
+    cfl = Flow(prog, ci)
     crets = [n for n in walk_no_nested(ci.node) if isinstance(n, ast.Return)]
-    ctx.floor('C03-R8/convert_in', len(crets), 7, 'returns of convert_in')
+    ctx.floor('C03-R8/convert_in', len(crets), 2, 'returns of convert_in')
+    incoming = {p_ for p_ in ci.params[1:2]}
+    n_cast = 0
     for r in crets:
+        ow = Owned(prog, fi)
+        res = ow.of(ci, cfl, r.value, r, incoming)
         v = r.value
-        ok = v is None or (isinstance(v, ast.Constant) and v.value is None) or 'self._cast(' in norm(v)
-        ctx.ob('C03-R8', ci, f'return {norm(v)[:50] if v is not None else ""}', ok,
-               'None (unset optional) or built from self._cast(…) of the incoming data' if ok else
-               ('the incoming object itself is stored: it is neither brought to the field type nor copied, so the trajectory '
+        if res is None:
+            ctx.undecided('C03-R8', ci, norm(r)[:60], 'cannot tell whether the value returned is built from self._cast(…)')
+        n_cast += res is True and v is not None and not (isinstance(v, ast.Constant) and v.value is None)
+        ctx.ob('C03-R8', ci, f'return {norm(v)[:50] if v is not None else ""}', res,
+               'None (unset optional) or built from self._cast(…) of the incoming data' if res else
+               (f'the incoming object itself is stored (`{norm(ow.leaf)[:40] if ow.leaf is not None else norm(v)[:40]}` reaches the '
+                'return without self._cast): it is neither brought to the field type nor copied, so the trajectory '
                 'shares the caller\'s array and changes when the caller reuses its buffer'), line=r.lineno)
+    ctx.floor('C03-R8/cast', n_cast, 1, 'returns of convert_in built from _cast')
     for c in calls_in(fi.node):
         if isinstance(c.func, ast.Attribute) and c.func.attr == 'astype':
             cp = kwarg(c, 'copy')
@@ -1033,7 +2741,7 @@ def rule_cast(ctx):
             ctx.ob('C03-R8', fi, f'{norm(c)[:60]} returns a new array', ok,
                    'astype copies by default' if ok else 'copy=False lets the stored array alias the caller\'s', line=c.lineno,
                    nontrivial=False)
-    cc = [c for c in calls_in(fi.node) if call_name(c) == 'np.can_cast']
+    cc = [c for c in calls_in(fi.node) if call_name(c) in ('np.can_cast', 'numpy.can_cast')]
     ok = bool(cc) and any(k.arg == 'casting' and norm(k.value) == "'same_kind'" for k in cc[0].keywords)
     ctx.ob('C03-R8', fi, 'unsafe casts refused', ok, "np.can_cast(…, casting='same_kind') before casting" if ok else
            'the safety check of the cast changed', nontrivial=False)
@@ -1155,17 +2863,6 @@ def _members_of(prog, fi, e, written_cls, depth=0, seen=None):
                     out += _members_of(prog, callee, r.value, written_cls, depth + 1, seen)
             return out
     return [('unknown', fi, e)]
-
-
-def _block_of(par, child):
-    for f in ('body', 'orelse', 'finalbody'):
-        blk = getattr(par, f, None)
-        if isinstance(blk, list) and any(x is child for x in blk):
-            return blk
-    for h in getattr(par, 'handlers', []) or []:
-        if any(x is child for x in h.body):
-            return h.body
-    return None
 
 
 def reach_facts(stmt, top):
@@ -1321,6 +3018,21 @@ def _site_conditions(site):
         itemvars = {x.id for g in node.generators for x in ast.walk(g.target) if isinstance(x, ast.Name)}
         facts = [(i, True) for g in node.generators for i in g.ifs]
         iters = [g.iter for g in node.generators]
+        # a source that is itself a filtered comprehension held in a local (`indexed = [n for n, f in … if …]`)
+        # brings its conditions and its item variables along
+        for g in node.generators:
+            src_ = g.iter
+            while isinstance(src_, ast.Call) and call_name(src_) in _WRAPPERS and src_.args:
+                src_ = src_.args[0]
+            if isinstance(src_, ast.Name):
+                d_ = single_def_value(fi.node, src_.id)
+                while isinstance(d_, ast.Call) and call_name(d_) in _WRAPPERS and d_.args:
+                    d_ = d_.args[0]
+                if isinstance(d_, (ast.ListComp, ast.SetComp, ast.GeneratorExp)):
+                    facts += [(i, True) for g2 in d_.generators for i in g2.ifs]
+                    iters += [g2.iter for g2 in d_.generators]
+                    itemvars |= {x.id for g2 in d_.generators for x in ast.walk(g2.target) if isinstance(x, ast.Name)}
+                    iters = [i for i in iters if i is not g.iter]
         if isinstance(V, ast.Name) and V.id in itemvars:
             # `… for sp in X` : the members are the elements of the innermost source
             src = next((g.iter for g in node.generators if any(isinstance(x, ast.Name) and x.id == V.id
@@ -1346,11 +3058,21 @@ def _site_conditions(site):
             if src is not None:
                 V = _value_of(src.iter)
                 iters = [i for i in iters if i is not src.iter]
-        # leaving the loop early restricts what is visited, too
+        # leaving the loop early restricts what is visited, too: right after a contribution (only the first item
+        # that contributes is collected) - a definite restriction; anywhere else - not analysed
+        first_only = False
         for lp in loops:
-            for x in walk_no_nested(lp):
-                if isinstance(x, (ast.Break, ast.Return)):
-                    cx = True
+            if not any(isinstance(x, (ast.Break, ast.Return)) for x in walk_no_nested(lp)):
+                continue
+            paths = iteration_paths(lp.body, lambda s_: is_within(st, s_), (ast.Raise,)) if isinstance(lp, ast.For) else None
+            if paths is not None and any(k == 'leave' and vis for k, vis, co in paths) and \
+                    not any(k == 'leave' and not vis for k, vis, co in paths):
+                first_only = True
+            else:
+                cx = True
+        if first_only:
+            facts.append((ast.Name(id='it_is_the_first_field_that_contributes', ctx=ast.Load()), True))
+            itemvars.add('it_is_the_first_field_that_contributes')
     # locals of the loop body derived from the item (val = self._data[name]) count as the item
     changed = True
     while changed:
@@ -1398,20 +3120,40 @@ def writer_proceeds(ctx, m):
         for e, pol in facts:
             out |= set(categorise_fact(wd.node, e, pol, itemvars, varg))
         # which parameter of the writer carries the value: the one stored into the variable
-    stored = [st.value for t, st, how in stores_to(wr.node) if isinstance(t, ast.Subscript) and how == 'assign']
+    stored = [x.value for x in ast.walk(wr.node) if isinstance(x, ast.Assign) and any(isinstance(t, ast.Subscript) for t in x.targets)]
     for v in stored:
         while isinstance(v, ast.Subscript):
             v = v.value
         if isinstance(v, ast.Name) and v.id in wr.params:
             vparam = v.id
+    if vparam is None and 'val' in wr.params:
+        vparam = 'val'      # the stores are in the methods the writer dispatches to
     if vparam is None:
         ctx.undecided('C03-R9', wr, 'value parameter', 'cannot tell which parameter is stored into the variable')
     dp = Dispatch(wr)
     items = set(wr.params) - {'self'}
+    # the unset-value protocol decided by evaluation (see R2): with the value None the writer raises or returns
+    # before any write, whatever the spelling of the tests -> it proceeds when the value is set
+    fparam = 'field' if 'field' in wr.params else None
+    varparam = 'var' if 'var' in wr.params else (wr.params[1] if len(wr.params) > 1 else None)
+    none_clean = fparam is not None and all(
+        k in ('raise', 'return') for req in (False, True) for k, n_, c_ in none_outcomes(wr.node, vparam, fparam, varparam, req))
+    if none_clean:
+        out.add(('value', True))
+
+    def about_value(t):
+        ns = {x.id for x in ast.walk(t) if isinstance(x, ast.Name)}
+        for n_ in list(ns):
+            v_ = single_def_value(wr.node, n_) if n_ not in wr.params else None
+            if v_ is not None:
+                ns |= {x.id for x in ast.walk(v_) if isinstance(x, ast.Name)}
+        return vparam in ns
     for r in walk_no_nested(wr.node):
         if isinstance(r, ast.Return) and r.value is None:
             gs = [(t, pol) for t, pol, _ in guards_of(r)]
             if not gs or any(dp.depends(t) for t, _ in gs):
+                continue
+            if none_clean and any(about_value(t) for t, _ in gs):
                 continue
             cats = [c for t, pol in gs for c in categorise_fact(wr.node, t, pol, items, ast.Name(id=vparam, ctx=ast.Load()))]
             cats = [c for c in cats if c[0] != 'global']
@@ -1432,18 +3174,13 @@ def rule_species_domain(ctx, m):
     cd = m.func('_create_dimensions')
     wd = m.func('TrajectoryStore._write_data')
     written_cls = expr_class(prog, wd, ast.Name(id='traj', ctx=ast.Load())) if 'traj' in wd.params else None
-    # the expression that becomes the species axis
-    roots = []
-    for c in calls_in(cd.node):
-        if call_name(c) == 'create_enum_dimension' and c.args and isinstance(c.args[0], ast.Constant) \
-                and c.args[0].value == 'species':
-            vals = c.args[2] if len(c.args) > 2 else kwarg(c, 'values')
-            if vals is not None:
-                roots.append(vals)
+    # the expression that becomes the species axis (see dimension_layouts)
+    lay = (getattr(ctx, '_c03_layouts', None) or dimension_layouts(ctx, prog, m, cd)).get('species')
+    roots = [(lay[2], lay[3])] if lay is not None and not lay[0].startswith('enum:') else []
     ctx.floor('C03-R9/axis', len(roots), 1, 'creation of the species dimension from a species list')
     found = []
-    for r in roots:
-        found += _members_of(prog, cd, r, written_cls)
+    for r, rf in roots:
+        found += _members_of(prog, rf, r, written_cls)
     proceeds = writer_proceeds(ctx, m) | {('value', True), ('dim:SPECIES', True)}
     nsite = 0
     seen = set()
@@ -1507,13 +3244,13 @@ def run(ctx):
     if len(legal) != 6:
         ctx.note(f'Dimensions.__init__ now admits {len(legal)} combinations (6 when the rules were written)')
     arms = rule_tables(ctx, m, legal)
-    rule_axis(ctx, m)
-    rule_same_file(ctx, m)
+    rule_axis(ctx, m, arms)
+    rule_field_flow(ctx, m)
     rule_accumulators(ctx, m)
     rule_absent(ctx, m, arms)
     rule_digest(ctx, m)
     rule_hash_gate(ctx, m)
-    rule_index_use(ctx, m)
+    rule_index_use(ctx, m, arms)
     rule_species_domain(ctx, m)
     ctx.assumptions += [
         'netCDF4 returns the fill value for cells never written and an empty array for unwritten VL cells',
